@@ -1,4 +1,4 @@
-(* End-to-end argument, fragment {sleep, sleep_until, log}: one poll of a task inside an event
+(* End-to-end argument, fragment of coq/Timer/Frag.v: one poll of a task inside an event
    of its module, and the executor's run over the queue of woken / spawned tasks. *)
 From Coq Require Import List Arith NArith Bool Lia Sorting.Sorted Permutation ZifyBool.
 From DesVerif Require Import CQueue.Model CQueue.Spec CQueue.SpecProps Timer.Driver Timer.QueueLemmas Timer.Inv
@@ -7,10 +7,29 @@ Import ListNotations.
 Open Scope N_scope.
 
 (* what is known of the tasks that are about to be polled at instant t in module m: spawned
-   now, or blocked on a future that completes exactly now *)
-Definition runnable (ts : list task) (t m : N) (k : nat) : Prop :=
+   now, blocked on a future whose timer is due now, or blocked on a receive with a message waiting *)
+Definition runnable (ts : list task) (mail : mailbox) (t m : N) (k : nat) : Prop :=
   exists tk, nth_error ts k = Some tk /\ t_mod tk = m /\
-    ((unspawned tk /\ t_start tk = t) \/ exists a, t_cur tk = Some a /\ aw_wake a (t_iv tk) = t).
+    ((unspawned tk /\ t_start tk = t) \/
+     exists a, t_cur tk = Some a /\ (aw_wake a (t_iv tk) = t \/
+                                    exists ch, waits_on (Some a) = Some ch /\ chan m ch mail <> [] /\ t < aw_wake a (t_iv tk))).
+
+(* the arrivals of one module replaced *)
+Definition upd (A : N -> arrs) (m : N) (arr : arrs) : N -> arrs := fun m' => if m' =? m then arr else A m'.
+
+Lemma upd_same A m arr : upd A m arr m = arr.
+Proof. unfold upd. rewrite N.eqb_refl. reflexivity. Qed.
+
+Lemma upd_other A m arr m' : m' <> m -> upd A m arr m' = A m'.
+Proof. intros H. unfold upd. replace (m' =? m) with false by lia. reflexivity. Qed.
+
+Lemma tstate_agree A0 A A' tk0 tk : A (t_mod tk0) = A' (t_mod tk0) -> tstate A0 A tk0 tk -> tstate A0 A' tk0 tk.
+Proof.
+  intros E [-> H1 H2|a st rest H1 H2 H3 H4 H5 H7 H8 H9 H10 H11 H12 H13 H14|H1 H2 H3 H4 H5 H6 H7].
+  - apply TUn; [reflexivity|rewrite <- E; exact H1|rewrite <- E; exact H2].
+  - apply (TBl _ _ _ _ a st rest); try assumption; rewrite <- E; assumption.
+  - apply TDn; assumption.
+Qed.
 
 Lemma waker_of_cons own id k id' : waker_of ((id, k) :: own) id' = if id =? id' then Some k else waker_of own id'.
 Proof. reflexivity. Qed.
@@ -53,17 +72,67 @@ Proof.
   - apply IH; [exact Hr|exact H2|]. intros x Hx1 Hx2. exact (Hd x (or_intror Hx1) Hx2).
 Qed.
 
+Lemma note_polls_app k before l1 l2 own : note_polls true k before (l1 ++ l2) own = note_polls true k before l2 (note_polls true k before l1 own).
+Proof. unfold note_polls. apply fold_left_app. Qed.
+
+Lemma note_polls_none k before ss : Forall (fun s => handle s = None) ss -> forall own, note_polls true k before ss own = own.
+Proof.
+  unfold note_polls. induction 1 as [|s r Hs _ IH]; intros own; cbn [fold_left]; [reflexivity|].
+  unfold note_poll at 2. rewrite Hs. apply IH.
+Qed.
+
+Lemma sent_by_inert k mail : inert mail -> Forall (fun s => handle s = None) (sent_by k mail).
+Proof.
+  induction 1 as [|[[[m0 c0] k0] s0] r Hs _ IH]; cbn [sent_by]; [constructor|]. cbn [snd] in Hs.
+  destruct (Nat.eqb k k0); [constructor; assumption|exact IH].
+Qed.
+
+(* replacing one element of a list under flat_map *)
+Lemma flat_map_set_nth {A B} (f : A -> list B) ts : forall k tk tk', nth_error ts k = Some tk ->
+  exists pre post, flat_map f ts = pre ++ f tk ++ post /\ flat_map f (set_nth k tk' ts) = pre ++ f tk' ++ post.
+Proof.
+  induction ts as [|x r IH]; intros k tk tk' Hk; [destruct k; discriminate|].
+  destruct k as [|k]; cbn [nth_error set_nth flat_map] in *.
+  - injection Hk as ->. exists [], (flat_map f r). split; reflexivity.
+  - destruct (IH k tk tk' Hk) as (pre & post & E1 & E2). exists (f x ++ pre), post. rewrite E1, E2, <- !app_assoc. split; reflexivity.
+Qed.
+
+Lemma on_chan_app c l1 l2 : on_chan c (l1 ++ l2) = on_chan c l1 ++ on_chan c l2.
+Proof. unfold on_chan. rewrite filter_app, map_app. reflexivity. Qed.
+
+(* the tokens a poll has appended, seen channel by channel *)
+Lemma toks_chan now m k toks : Forall (tok_ok now m k) toks ->
+  (forall c, map deadline (chan m c toks) = on_chan c (map (fun e => (chn e, now)) toks)) /\
+  (forall m' c, m' <> m -> chan m' c toks = []) /\ inert toks.
+Proof.
+  induction 1 as [|e r (ch & id & ->) _ (I1 & I2 & I3)]; [repeat split; constructor|].
+  split; [|split].
+  - intros c. cbn [chan map chn fst snd on_chan filter]. rewrite N.eqb_refl. cbn [andb].
+    pose proof (I1 c) as Hc. unfold on_chan in Hc.
+    destruct (ch =? c); [cbn [map token deadline snd]; rewrite N.add_0_r, Hc; reflexivity|exact Hc].
+  - intros m' c Hne. cbn [chan]. replace (m =? m') with false by lia. cbn [andb]. exact (I2 m' c Hne).
+  - constructor; [reflexivity|exact I3].
+Qed.
+
+Lemma map_skipn {X Y} (f : X -> Y) n0 : forall l, map f (skipn n0 l) = skipn n0 (map f l).
+Proof. induction n0 as [|n0 IH]; intros l; [reflexivity|]. destruct l as [|x l]; [reflexivity|]. cbn [skipn map]. apply IH. Qed.
+
+Lemma Forall_skipn {X} (P : X -> Prop) n0 : forall l, Forall P l -> Forall P (skipn n0 l).
+Proof. induction n0 as [|n0 IH]; intros l H; [exact H|]. destruct l as [|x l]; [constructor|]. inversion H; subst. cbn [skipn]. apply IH. assumption. Qed.
+
 Section PollStep.
   (* [drc]: the driver after the future the task was blocked on has completed (for a task that
      is spawned: the driver as it is); it holds no entry of task k any more.  The poll leaves
-     the result (o, b, n, dr'), which meets [poll_ok] against the log [E] still demanded;
-     [old]: ids of Sleeps task k owned before the poll *)
-  Variables (ts0 ts : list task) (own : wakers) (nid : N) (drc : driver) (t m : N) (k : nat) (r : list nat).
-  Variables (tk tk0 : task) (L E : list N) (o : list N) (b : option (aw * option interval * list step)) (n : N) (dr' : driver).
+     the result (o, b, n, dr', ml), which meets [poll_ok] against the log [E] still demanded and
+     the messages [S] still to be sent; [old]: ids of Sleeps task k owned before the poll;
+     [arr']: the arrivals task k expects afterwards *)
+  Variables (A0 A : N -> arrs) (ts0 ts : list task) (own : wakers) (nid : N) (drc : driver) (mail : mailbox) (t m : N) (k : nat) (r : list nat).
+  Variables (tk tk0 : task) (L E : list N) (S : list (N * N)) (o : list N) (b : option (aw * option interval * list step)) (n : N) (dr' : driver)
+            (ml : mailbox) (arr' : arrs).
   Variable before : list N.
   Variable old : N -> Prop.
 
-  Hypothesis Hbase : Base ts0 ts own nid.
+  Hypothesis Hbase : Base A0 A ts0 ts own nid.
   Hypothesis Hnd : NoDup (k :: r).
   Hypothesis Hmid : Mid t drc.
   Hypothesis Hte : forall k' tk1 s, k' <> k -> nth_error ts k' = Some tk1 -> In s (held tk1) -> t_mod tk1 = m ->
@@ -77,36 +146,49 @@ Section PollStep.
   Hypothesis Hmod0 : t_mod tk = t_mod tk0.
   Hypothesis Hst0 : t_start tk = t_start tk0.
   Hypothesis Hold : forall id, old id -> exists s, In s (owned tk) /\ sid s = id.
-  Hypothesis Hspec : poll_ok t nid old drc E (o, b, n, dr').
-  Hypothesis Hexp : expected tk0 = L ++ E.
+  Hypothesis Hinert : inert mail.
+  Hypothesis Hn : nid <= n.
+  Hypothesis Hacts : acts t drc dr'.
+  Hypothesis Hents : forall x, ents_at x (pending dr') =
+                       ents_at x (pending drc) ++ match b with Some (a, iv', _) => new_at a iv' x | None => [] end.
+  Hypothesis Hres : poll_body t nid n m k (rcv_of tk0) old mail ml (A m) arr' E S o b.
+  Hypothesis Hexp : expected A0 tk0 = L ++ E.
+  Hypothesis HfS : fut_sends tk = S.
+  Hypothesis Harr : Arr A t ts mail.
 
   Let tk' := {| t_mod := t_mod tk; t_start := t_start tk; t_steps := fr_steps b; t_cur := fr_cur b; t_iv := fr_iv b;
                 t_log := L ++ o; t_fin := match fr_steps b with [] => true | _ => false end |}.
   Let ts' := set_nth k tk' ts.
-  Let own' := note_polls true k before (held_sleeps (fr_cur b) (fr_iv b) ++ []) own.
+  Let own' := note_polls true k before (held_sleeps (fr_cur b) (fr_iv b) ++ sent_by k ml) own.
+  (* the arrivals afterwards: only a receiver changes what its module expects *)
+  Let A' := if rcv_of tk0 then upd A m arr' else A.
 
   Lemma ps_fresh : forall x id, In id (ents_at x (pending drc)) -> id < nid.
   Proof.
     intros x id Hin. destruct (Htt x id Hin) as (k' & tk1 & s & _ & Hk' & Hs & _ & E1 & _). rewrite <- E1.
-    exact (proj1 (b_ids _ _ _ _ Hbase k' tk1 s Hk' Hs)).
+    exact (proj1 (b_ids _ _ _ _ _ _ Hbase k' tk1 s Hk' Hs)).
   Qed.
 
-  Lemma ps_cases : nid <= n /\
-    ((b = None /\ E = o) \/
-     exists a iv' st rest, b = Some (a, iv', st :: rest) /\ Forall frag_step rest /\
-        E = o ++ aw_rec a iv' ++ exp_run (aw_end a iv') (iv_abs (iv_after a iv')) rest /\ blocked_ok t nid n old a iv').
+  Lemma ps_cases :
+    (b = None /\ E = o /\ mail_ok t m k (rcv_of tk0) mail ml (A m) arr' S []) \/
+    exists a iv' st rest, b = Some (a, iv', st :: rest) /\ Forall (frag_step2 (rcv_of tk0)) rest /\
+        E = o ++ aw_rec a iv' arr' ++ exp_run (aw_end a iv' arr') (iv_abs (iv_after a iv')) (aw_arr a arr') rest /\
+        blocked_ok t nid n old a iv' /\
+        mail_ok t m k (rcv_of tk0) mail ml (A m) arr' S (exp_sends (aw_end a iv' arr') (iv_abs (iv_after a iv')) rest) /\
+        aw_ok a arr' /\ recv_ok (aw_end a iv' arr') (iv_abs (iv_after a iv')) (aw_arr a arr') rest /\
+        (forall ch, waits_on (Some a) = Some ch -> rcv_of tk0 = true /\ chan m ch ml = []).
   Proof.
-    pose proof Hspec as H. unfold poll_ok in H. revert H. generalize b. intros b0 (Hn & _ & _ & Hb).
-    split; [exact Hn|]. destruct b0 as [[[a iv'] l]|]; [right|left; split; [reflexivity|exact Hb]].
+    pose proof Hres as H. unfold poll_body in H. revert H. generalize b. intros b0 Hb.
+    destruct b0 as [[[a iv'] l]|]; [right|left; destruct Hb as [H1 H2]; repeat split; assumption].
     destruct Hb as (st & rest & -> & H). exists a, iv', st, rest. split; [reflexivity|exact H].
   Qed.
 
   Lemma ps_acts : acts t drc dr'.
-  Proof. exact (proj1 (proj2 Hspec)). Qed.
+  Proof. exact Hacts. Qed.
 
   Lemma ps_ents x : ents_at x (pending dr') =
     ents_at x (pending drc) ++ match b with Some (a, iv', _) => new_at a iv' x | None => [] end.
-  Proof. exact (proj1 (proj2 (proj2 Hspec)) x). Qed.
+  Proof. exact (Hents x). Qed.
 
   (* an id the task has after the poll is below the new counter, in no entry of the driver
      before the poll, and owned by no other task *)
@@ -114,15 +196,15 @@ Section PollStep.
     id < n /\ (forall x, ~ In id (ents_at x (pending drc))) /\
     forall k' tk1 s1, k' <> k -> nth_error ts k' = Some tk1 -> In s1 (owned tk1) -> sid s1 <> id.
   Proof.
-    destruct ps_cases as (Hn & _). intros [[H1 H2]|Ho].
+    intros [[H1 H2]|Ho].
     - split; [exact H2|]. split.
       + intros x Hin. pose proof (ps_fresh x id Hin). lia.
-      + intros k' tk1 s1 _ Hk' Hs1 E1. pose proof (b_own _ _ _ _ Hbase k' tk1 s1 Hk' Hs1). lia.
-    - destruct (Hold id Ho) as (s & Hs & <-). split; [pose proof (b_own _ _ _ _ Hbase k tk s Hk Hs); lia|]. split.
+      + intros k' tk1 s1 _ Hk' Hs1 E1. pose proof (b_own _ _ _ _ _ _ Hbase k' tk1 s1 Hk' Hs1). lia.
+    - destruct (Hold id Ho) as (s & Hs & <-). split; [pose proof (b_own _ _ _ _ _ _ Hbase k tk s Hk Hs); lia|]. split.
       + intros x Hin. destruct (Htt x _ Hin) as (k' & tk1 & s1 & Hne & Hk' & Hs1 & _ & E1 & _).
-        apply Hne. exact (b_distinct _ _ _ _ Hbase k' k tk1 tk s1 s Hk' Hk (held_owned _ _ Hs1) Hs E1).
+        apply Hne. exact (b_distinct _ _ _ _ _ _ Hbase k' k tk1 tk s1 s Hk' Hk (held_owned _ _ Hs1) Hs E1).
       + intros k' tk1 s1 Hne Hk' Hs1 E1. apply Hne.
-        exact (b_distinct _ _ _ _ Hbase k' k tk1 tk s1 s Hk' Hk Hs1 Hs E1).
+        exact (b_distinct _ _ _ _ _ _ Hbase k' k tk1 tk s1 s Hk' Hk Hs1 Hs E1).
   Qed.
 
   Lemma ps_held : held tk' = match b with Some (a, iv', _) => aw_held a iv' | None => [] end.
@@ -131,7 +213,7 @@ Section PollStep.
   Lemma ps_held_in s : In s (held tk') ->
     exists a iv' st rest, b = Some (a, iv', st :: rest) /\ In s (aw_held a iv') /\ t < deadline s /\ handle s = Some (deadline s) /\ idsrc nid n old (sid s).
   Proof.
-    rewrite ps_held. destruct ps_cases as (_ & [(Eb & _)|(a & iv' & st & rest & Eb & _ & _ & (_ & _ & _ & Hall & _))]); rewrite Eb; [intros []|].
+    rewrite ps_held. destruct ps_cases as [(Eb & _)|(a & iv' & st & rest & Eb & _ & _ & (_ & _ & _ & Hall & _) & _)]; rewrite Eb; [intros []|].
     intros Hin. rewrite Forall_forall in Hall. destruct (Hall s Hin) as (H1 & H2 & H3). exists a, iv', st, rest. repeat split; assumption.
   Qed.
 
@@ -140,27 +222,52 @@ Section PollStep.
     intros Hin. unfold owned in Hin. apply in_app_or in Hin. destruct Hin as [Hin|Hin].
     - destruct (ps_held_in s Hin) as (_ & _ & _ & _ & _ & _ & _ & _ & H). exact H.
     - unfold tk' in Hin. cbn [t_iv] in Hin.
-      destruct ps_cases as (_ & [(Eb & _)|(a & iv' & st & rest & Eb & _ & _ & (_ & _ & _ & _ & Hiv))]); rewrite Eb in Hin; cbn [fr_iv] in Hin; [contradiction|].
+      destruct ps_cases as [(Eb & _)|(a & iv' & st & rest & Eb & _ & _ & (_ & _ & _ & _ & Hiv) & _)]; rewrite Eb in Hin; cbn [fr_iv] in Hin; [contradiction|].
       destruct iv' as [i|]; [|contradiction]. destruct Hin as [<-|[]]. apply Hiv. exists i. split; reflexivity.
+  Qed.
+
+  Lemma ps_mail : mail_ok t m k (rcv_of tk0) mail ml (A m) arr' S (fut_sends tk').
+  Proof.
+    unfold fut_sends, tk'. cbn [t_cur t_fin t_steps t_iv t_start].
+    destruct ps_cases as [(Eb & _ & Hm)|(a & iv' & st & rest & Eb & Hf & _ & (Hkind & _) & Hm & _ & _ & Hw)]; rewrite Eb; cbn [fr_cur fr_steps fr_iv tl]; [exact Hm|].
+    destruct (rcv_of tk0) eqn:Er.
+    - rewrite (exp_sends_rcv rest Hf) in *. exact Hm.
+    - assert (Hnw : waits_on (Some a) = None).
+      { destruct (waits_on (Some a)) as [ch|] eqn:Ew; [|reflexivity]. destruct (Hw ch eq_refl) as [H _]. discriminate. }
+      destruct (aw_noarr a iv' arr' noarr Hnw) as (_ & E2 & _). rewrite <- E2. exact Hm.
+  Qed.
+
+  Lemma ps_inert : inert ml.
+  Proof.
+    pose proof ps_mail as Hm. unfold mail_ok in Hm. destruct (rcv_of tk0).
+    - destruct Hm as (_ & _ & _ & Hi). exact (Hi Hinert).
+    - destruct Hm as (toks & -> & Ht & _). apply Forall_app. split; [exact Hinert|exact (proj2 (proj2 (toks_chan _ _ _ _ Ht)))].
   Qed.
 
   Lemma ps_waker id : waker_of own' id =
     if existsb (N.eqb id) (map sid (held tk')) then Some k else waker_of own id.
   Proof.
-    unfold own'. rewrite app_nil_r. rewrite ps_held.
-    destruct ps_cases as (_ & [(Eb & _)|(a & iv' & st & rest & Eb & _ & _ & (_ & _ & _ & Hall & _))]); rewrite Eb; cbn [fr_cur fr_iv held_sleeps].
+    unfold own'. rewrite note_polls_app, (note_polls_none k before _ (sent_by_inert k ml ps_inert)). rewrite ps_held.
+    destruct ps_cases as [(Eb & _)|(a & iv' & st & rest & Eb & _ & _ & (_ & _ & _ & Hall & _) & _)]; rewrite Eb; cbn [fr_cur fr_iv held_sleeps].
     - reflexivity.
     - apply note_polls_held. eapply Forall_impl; [|exact Hall]. cbn beta. intros s (_ & H & _). rewrite H. discriminate.
   Qed.
 
-  Lemma ps_tstate : tstate tk0 tk'.
+  Lemma ps_tstate : tstate A0 A' tk0 tk'.
   Proof.
-    unfold tk'. destruct ps_cases as (_ & [(Eb & Ho)|(a & iv' & st & rest & Eb & Hf & He & (Hk1 & Hw & Hndp & Hall & _))]); rewrite Eb.
-    - apply TDn; cbn [t_mod t_start t_steps t_cur t_iv t_fin t_log fr_steps fr_cur fr_iv]; try assumption; try reflexivity.
-      rewrite Hexp, Ho. reflexivity.
-    - apply (TBl _ _ a st rest); cbn [t_mod t_start t_steps t_cur t_iv t_fin t_log fr_steps fr_cur fr_iv]; try assumption; try reflexivity.
-      + eapply Forall_impl; [|exact Hall]. cbn beta. intros s (_ & H & _). exact H.
-      + rewrite Hexp, He, app_assoc. reflexivity.
+    assert (H : tstate A0 (upd A m arr') tk0 tk').
+    { unfold tk'. assert (Em : t_mod tk0 = m) by (rewrite <- Hmod0; exact Hmod).
+      destruct ps_cases as [(Eb & Ho & _)|(a & iv' & st & rest & Eb & Hf & He & (Hk1 & Hw & Hndp & Hall & _) & _ & Hao & Hro & Hch)]; rewrite Eb.
+      - apply TDn; cbn [t_mod t_start t_steps t_cur t_iv t_fin t_log fr_steps fr_cur fr_iv]; try assumption; try reflexivity.
+        rewrite Hexp, Ho. reflexivity.
+      - apply (TBl _ _ _ _ a st rest); cbn [t_mod t_start t_steps t_cur t_iv t_fin t_log fr_steps fr_cur fr_iv]; try assumption; try reflexivity;
+          rewrite ?Em, ?upd_same; try assumption.
+        + eapply Forall_impl; [|exact Hall]. cbn beta. intros s (_ & H & _). exact H.
+        + rewrite Hexp, He, app_assoc. reflexivity.
+        + intros ch Hc. exact (proj1 (Hch ch Hc)). }
+    unfold A'. destruct (rcv_of tk0) eqn:Er; [exact H|].
+    pose proof (b_init _ _ _ _ _ _ Hbase) as Hall. rewrite Forall_forall in Hall.
+    exact (tstate_noarr _ _ A _ _ H (Hall tk0 (nth_error_In _ _ Hk0)) Er).
   Qed.
 
   Lemma ps_nth_other k' : k' <> k -> nth_error ts' k' = nth_error ts k'.
@@ -169,12 +276,28 @@ Section PollStep.
   Lemma ps_nth_same : nth_error ts' k = Some tk'.
   Proof. unfold ts'. eapply nth_set_nth_same. exact Hk. Qed.
 
-  Lemma ps_base : Base ts0 ts' own' n.
+  (* the other tasks are not affected by the change of the arrivals *)
+  Lemma ps_tstate_other k' tk1 tk10 : k' <> k -> nth_error ts k' = Some tk1 -> nth_error ts0 k' = Some tk10 ->
+    tstate A0 A tk10 tk1 -> tstate A0 A' tk10 tk1.
   Proof.
-    destruct Hbase as [Hst Hin Hids Hown Hdis]. destruct ps_cases as (Hn & _).
+    intros Hne Hk' Hk0' Hst. unfold A'. destruct (rcv_of tk0) eqn:Er; [|exact Hst].
+    pose proof (b_init _ _ _ _ _ _ Hbase) as Hall. rewrite Forall_forall in Hall.
+    destruct (N.eq_dec (t_mod tk10) m) as [Em|Em].
+    - destruct (rcv_of tk10) eqn:Er1.
+      + exfalso. apply Hne. apply (b_one _ _ _ _ _ _ Hbase k' k tk10 tk0 Hk0' Hk0 Er1 Er). rewrite Em, <- Hmod0. symmetry; exact Hmod.
+      + exact (tstate_noarr _ _ _ _ _ Hst (Hall tk10 (nth_error_In _ _ Hk0')) Er1).
+    - apply (tstate_agree _ A); [rewrite (upd_other _ _ _ _ Em); reflexivity|exact Hst].
+  Qed.
+
+  Lemma ps_base : Base A0 A' ts0 ts' own' n.
+  Proof.
+    destruct Hbase as [Hst Hin Hone Hids Hown Hdis].
     constructor.
-    - unfold ts'. eapply Forall2_set_nth; [exact Hst|exact Hk0|exact ps_tstate].
+    - (* the states *)
+      unfold ts'. apply (Forall2_set_nth_impl (tstate A0 A) (tstate A0 A') ts0 ts k tk0 tk' Hst Hk0 ps_tstate).
+      intros k' a' b' Hne Ha Hb Hr. exact (ps_tstate_other k' b' a' Hne Hb Ha Hr).
     - exact Hin.
+    - exact Hone.
     - intros k' tk1 s Hk' Hs. rewrite ps_waker. destruct (Nat.eq_dec k' k) as [->|Hne].
       + rewrite ps_nth_same in Hk'. injection Hk' as <-. destruct (ps_held_in s Hs) as (_ & _ & _ & _ & _ & _ & _ & _ & Hsrc).
         split; [exact (proj1 (ps_src _ Hsrc))|]. replace (existsb (N.eqb (sid s)) (map sid (held tk'))) with true; [reflexivity|].
@@ -210,40 +333,116 @@ Section PollStep.
     - intros d id Hin. rewrite ps_ents in Hin. apply in_app_or in Hin. destruct Hin as [Ho|Hnew].
       + destruct (Htt d id Ho) as (k' & tk1 & s & Hne & Hk' & Hs & Hm & E1 & E2).
         exists k', tk1, s. rewrite (ps_nth_other k' Hne). repeat split; assumption.
-      + destruct ps_cases as (_ & [(Eb & _)|(a & iv' & st & rest & Eb & _)]); rewrite Eb in Hnew; [contradiction|].
+      + destruct ps_cases as [(Eb & _)|(a & iv' & st & rest & Eb & _)]; rewrite Eb in Hnew; [contradiction|].
         apply new_at_in in Hnew. destruct Hnew as (s & Hs & E1 & E2).
         exists k, tk', s. rewrite ps_nth_same, ps_held, Eb. repeat split; try assumption; try (unfold tk'; cbn [t_mod]; exact Hmod).
     - intros d. rewrite ps_ents.
-      destruct ps_cases as (_ & [(Eb & _)|(a & iv' & st & rest & Eb & _ & _ & (_ & _ & Hndp & Hall & _))]); rewrite Eb; [rewrite app_nil_r; apply Htn|].
+      destruct ps_cases as [(Eb & _)|(a & iv' & st & rest & Eb & _ & _ & (_ & _ & Hndp & Hall & _) & _)]; rewrite Eb; [rewrite app_nil_r; apply Htn|].
       apply NoDup_app_intro; [apply Htn|unfold new_at; apply NoDup_map_filter; exact Hndp|].
       intros id H1 H2. apply new_at_in in H2. destruct H2 as (s & Hs & <- & _).
       rewrite Forall_forall in Hall. destruct (Hall s Hs) as (_ & _ & Hsrc). exact (proj1 (proj2 (ps_src _ Hsrc)) d H1).
   Qed.
 
-  Lemma ps_live : NwLive drc -> NwLive dr'.
-  Proof.
-    intros Hn w0 Hw. destruct ps_acts as (ops & _ & Eq). rewrite Eq in Hw.
-    rewrite (proj1 (apply_ops_rest_nw ops drc)) in Hw. pose proof (Hn w0 Hw) as Hne.
-    rewrite ps_ents. intros Hc. apply app_eq_nil in Hc. exact (Hne (proj1 Hc)).
-  Qed.
-
-  Lemma ps_nw : next_wakeup dr' = next_wakeup drc.
-  Proof. destruct ps_acts as (ops & _ & Eq). rewrite Eq. exact (proj1 (apply_ops_rest_nw ops drc)). Qed.
-
   Lemma ps_spawned : ~ unspawned tk'.
   Proof.
     unfold tk', unspawned. cbn [t_cur t_fin].
-    destruct ps_cases as (_ & [(Eb & _)|(a & iv' & st & rest & Eb & _)]); rewrite Eb; cbn [fr_cur fr_steps]; intros [H1 H2]; discriminate.
+    destruct ps_cases as [(Eb & _)|(a & iv' & st & rest & Eb & _)]; rewrite Eb; cbn [fr_cur fr_steps]; intros [H1 H2]; discriminate.
   Qed.
 
-  Lemma ps_runnable k' : In k' r -> runnable ts t m k' -> runnable ts' t m k'.
+  (* ---- the channels after the poll ---- *)
+  Lemma ps_chan_other m' c : m' <> m -> chan m' c ml = chan m' c mail.
   Proof.
-    intros Hin (tk1 & H1 & H2). exists tk1. split; [|exact H2].
-    rewrite ps_nth_other; [exact H1|]. intros ->. inversion Hnd; contradiction.
+    intros Hne. pose proof ps_mail as Hm. unfold mail_ok in Hm. destruct (rcv_of tk0).
+    - destruct Hm as (_ & _ & Ho & _). exact (Ho m' c Hne).
+    - destruct Hm as (toks & -> & Ht & _). rewrite chan_app, (proj1 (proj2 (toks_chan _ _ _ _ Ht)) m' c Hne), app_nil_r. reflexivity.
+  Qed.
+
+  (* a task that is not a receiver only adds messages *)
+  Lemma ps_chan_grow c : rcv_of tk0 = false -> exists extra, chan m c ml = chan m c mail ++ extra /\ Forall (fun s => deadline s = t) extra.
+  Proof.
+    intros Er. pose proof ps_mail as Hm. unfold mail_ok in Hm. rewrite Er in Hm. destruct Hm as (toks & -> & Ht & _).
+    exists (chan m c toks). split; [apply chan_app|].
+    clear -Ht. induction Ht as [|e r0 (ch & id & ->) _ IH]; [constructor|]. cbn [chan]. rewrite N.eqb_refl. cbn [andb].
+    destruct (ch =? c); [constructor; [cbn [token deadline]; lia|exact IH]|exact IH].
+  Qed.
+
+  (* a task blocks on a receive only with its channel empty *)
+  Lemma ps_recv_block ch : waits_on (t_cur tk') = Some ch -> rcv_of tk0 = true /\ chan m ch ml = [].
+  Proof.
+    unfold tk'. cbn [t_cur].
+    destruct ps_cases as [(Eb & _)|(a & iv' & st & rest & Eb & _ & _ & _ & _ & _ & _ & Hw)]; rewrite Eb; cbn [fr_cur]; [discriminate|].
+    exact (Hw ch).
+  Qed.
+
+  Lemma ps_arr : Arr A' t ts' ml.
+  Proof.
+    intros m1 c. destruct (Harr m1 c) as (EA & F1 & F2).
+    set (f := fun tk1 : task => if t_mod tk1 =? m1 then on_chan c (fut_sends tk1) else []).
+    destruct (flat_map_set_nth f ts k tk tk' Hk) as (pre & post & E1 & E2).
+    change (fsends m1 c ts) with (flat_map f ts) in *. change (fsends m1 c ts') with (flat_map f (set_nth k tk' ts)).
+    rewrite E2. rewrite E1 in EA, F2.
+    assert (Hmod' : t_mod tk' = t_mod tk) by reflexivity.
+    pose proof ps_mail as Hm. rewrite <- HfS in Hm. unfold mail_ok in Hm. unfold A'.
+    destruct (rcv_of tk0) eqn:Er.
+    - (* a receiver: it took messages off its channels *)
+      destruct Hm as (ES & (cons & Hc) & Ho & _).
+      assert (Ef : f tk' = f tk) by (unfold f; rewrite Hmod', ES; reflexivity). rewrite Ef.
+      destruct (N.eq_dec m1 m) as [->|Hne].
+      + rewrite upd_same. destruct (Hc c) as (C1 & C2 & C3). rewrite C2, EA.
+        unfold chan_inst in *. rewrite C1, map_skipn, skipn_app.
+        replace (cons c - length (map deadline (chan m c mail)))%nat with 0%nat by (rewrite map_length; lia). cbn [skipn].
+        split; [reflexivity|]. split; [apply Forall_skipn; exact F1|exact F2].
+      + rewrite (upd_other _ _ _ _ Hne). unfold chan_inst in *. rewrite (Ho m1 c Hne). split; [exact EA|]. split; assumption.
+    - (* any other task: it appended the messages it sent *)
+      destruct Hm as (toks & -> & Ht & _ & ES). destruct (toks_chan _ _ _ _ Ht) as (T1 & T2 & _).
+      destruct (N.eq_dec m1 m) as [->|Hne].
+      + assert (Ef : f tk = on_chan c (map (fun e => (chn e, t)) toks) ++ f tk').
+        { unfold f. rewrite Hmod', Hmod, N.eqb_refl, ES, on_chan_app. reflexivity. }
+        set (sent := on_chan c (map (fun e => (chn e, t)) toks)) in *.
+        assert (Hsent : Forall (fun a => a = t) sent).
+        { unfold sent, on_chan. clear. induction toks as [|e r0 IH]; cbn [map filter]; [constructor|].
+          destruct (fst (chn e, t) =? c); [cbn [map snd]; constructor; [reflexivity|exact IH]|exact IH]. }
+        rewrite Ef in EA, F2.
+        assert (F2' : Forall (fun a => t <= a) (pre ++ f tk' ++ post)).
+        { apply Forall_app in F2. destruct F2 as [G1 G2]. apply Forall_app in G2. destruct G2 as [G2 G3]. apply Forall_app in G2. destruct G2 as [_ G2].
+          apply Forall_app. split; [exact G1|]. apply Forall_app. split; assumption. }
+        assert (Eis : isort (pre ++ (sent ++ f tk') ++ post) = sent ++ isort (pre ++ f tk' ++ post)).
+        { rewrite <- (isort_min_prefix t sent _ Hsent F2'). apply isort_perm_eq.
+          rewrite <- !app_assoc. rewrite app_assoc. rewrite (app_assoc sent). apply Permutation_app_tail. apply Permutation_app_comm. }
+        unfold chan_inst in *. rewrite chan_app, map_app, T1. fold sent. rewrite EA, Eis, <- app_assoc.
+        split; [reflexivity|]. split; [|exact F2'].
+        apply Forall_app. split; [exact F1|]. eapply Forall_impl; [|exact Hsent]. cbn beta. intros a ->. lia.
+      + assert (Ef : f tk' = f tk) by (unfold f; rewrite Hmod', Hmod; replace (m =? m1) with false by lia; reflexivity). rewrite Ef.
+        unfold chan_inst in *. rewrite chan_app, (T2 m1 c Hne), app_nil_r. split; [exact EA|]. split; assumption.
+  Qed.
+
+  (* the tasks still to be polled stay runnable *)
+  Lemma ps_runnable k' : In k' r -> runnable ts mail t m k' -> runnable ts' ml t m k'.
+  Proof.
+    intros Hin (tk1 & H1 & H2 & H3).
+    assert (Hne : k' <> k) by (intros ->; inversion Hnd; contradiction).
+    exists tk1. split; [rewrite ps_nth_other; [exact H1|exact Hne]|]. split; [exact H2|].
+    destruct H3 as [H3|(a & Hc & [Hw|(ch & Hw & Hch & Hlt)])]; [left; exact H3|right; exists a; split; [exact Hc|left; exact Hw]|].
+    right. exists a. split; [exact Hc|]. right. exists ch. split; [exact Hw|]. split; [|exact Hlt].
+    (* k' receives in module m, so task k does not: it has only added messages *)
+    destruct (Forall2_nth _ _ _ _ _ (b_states _ _ _ _ _ _ Hbase) H1) as (tk10 & Hk10 & Hst1).
+    assert (Hr1 : rcv_of tk10 = true).
+    { destruct Hst1 as [-> _ _|a' st rest _ _ _ _ H5 _ _ _ _ _ _ _ H14|_ _ _ H4 _ _ _].
+      - pose proof (b_init _ _ _ _ _ _ Hbase) as Hall. rewrite Forall_forall in Hall.
+        destruct (Hall tk10 (nth_error_In _ _ Hk10)) as (_ & I2 & _). rewrite I2 in Hc. discriminate.
+      - rewrite H5 in Hc. injection Hc as ->. exact (H14 ch Hw).
+      - rewrite H4 in Hc. discriminate. }
+    assert (Hm1 : t_mod tk10 = t_mod tk0).
+    { pose proof (b_init _ _ _ _ _ _ Hbase) as Hall. rewrite Forall_forall in Hall.
+      destruct (tstate_cases _ _ _ _ Hst1 (Hall tk10 (nth_error_In _ _ Hk10))) as (E1 & _). rewrite <- E1, H2, <- Hmod0. symmetry; exact Hmod. }
+    assert (Hcase : rcv_of tk0 = true \/ rcv_of tk0 = false) by (destruct (rcv_of tk0); [left|right]; reflexivity).
+    destruct Hcase as [Er|Er].
+    - exfalso. apply Hne. exact (b_one _ _ _ _ _ _ Hbase k' k tk10 tk0 Hk10 Hk0 Hr1 Er Hm1).
+    - destruct (ps_chan_grow ch Er) as (extra & -> & _). intros Hnil. apply app_eq_nil in Hnil. exact (Hch (proj1 Hnil)).
   Qed.
 End PollStep.
 
-(* ---- the work that is left: steps to go, plus one for a task that is still to be spawned ---- *)
+(* ---- the work that is left ---- *)
 (* twice the steps to go, plus two for a task that is still to be spawned, plus one for a task whose
    keep-alive select may block once more (on the re-armed kept timer) within the same step *)
 Definition wt (tk : task) : nat :=
@@ -268,28 +467,45 @@ Proof.
   - fold (work r) in *. fold (work (set_nth k tk' r)). pose proof (IH k tk tk' Hk). lia.
 Qed.
 
-Lemma frag_run_len t0 steps : forall nid iv dr, (length (fr_steps (snd (fst (fst (frag_run t0 nid iv steps dr))))) <= length steps)%nat.
+Lemma frag_run_len t0 m k steps : forall nid iv dr mail,
+  (length (fr_steps (snd (fst (fst (fst (frag_run t0 nid m k iv steps dr mail)))))) <= length steps)%nat.
 Proof.
-  induction steps as [|st r IH]; intros nid iv dr; cbn [frag_run]; [cbn; lia|].
-  destruct st as [d|t|d v| | | | |polled d1 d2|d| | | | | |]; cbn [fst snd fr_steps length]; try lia;
+  induction steps as [|st r IH]; intros nid iv dr mail; cbn [frag_run]; [cbn; lia|].
+  destruct st as [d|t|d v| | | | |polled d1 d2|d| |ch d| |d ch| |]; cbn [fst snd fr_steps length]; try lia;
   try (destruct v as [x|]; cbn [fst snd fr_steps length]; try lia);
   try (destruct iv as [i|]; cbn [fst snd fr_steps length]; try lia);
+  try (destruct (mail_take m ch mail) as [[s0 mail0]|]; cbn [fst snd fr_steps length]; try lia);
   repeat match goal with |- context [if ?c then _ else _] => destruct c; cbn [fst snd fr_steps length]; try lia end;
-  match goal with IHx : forall _ _ _, _ |- context [frag_run _ ?n0 ?i0 _ ?d0] =>
-    specialize (IHx n0 i0 d0); destruct (frag_run t0 n0 i0 r d0) as [[[o0 b0] n'] d']; cbn [fst snd] in *; lia end.
+  match goal with IHx : forall _ _ _ _, _ |- context [frag_run _ ?n0 _ _ ?i0 _ ?d0 ?m0] =>
+    specialize (IHx n0 i0 d0 m0); destruct (frag_run t0 n0 m k i0 r d0 m0) as [[[[o0 b0] n'] d'] ml0]; cbn [fst snd] in *; lia end.
+Qed.
+
+(* the messages that are still to be sent, all tasks together: bounds how often the run queue grows *)
+Definition psends (ts : list task) : nat := fold_right (fun tk n => (length (fut_sends tk) + n)%nat) 0%nat ts.
+
+Lemma psends_set_nth ts : forall k tk tk', nth_error ts k = Some tk ->
+  (psends (set_nth k tk' ts) + length (fut_sends tk) = psends ts + length (fut_sends tk'))%nat.
+Proof.
+  induction ts as [|a r IH]; intros k tk tk' Hk; [destruct k; discriminate|].
+  destruct k as [|k]; cbn [nth_error set_nth psends fold_right] in *.
+  - injection Hk as ->. fold (psends r). lia.
+  - fold (psends r) in *. fold (psends (set_nth k tk' r)). pose proof (IH k tk tk' Hk). lia.
 Qed.
 
 (* ---- inside an event of module m at instant t, with [q] still to be polled ---- *)
-Record MInv (ts0 : list task) (t m : N) (q : list nat) (w : world) : Prop := {
-  mi_mail : w_mail w = [];
-  mi_base : Base ts0 (w_tasks w) (w_owner w) (w_nid w);
+Record MInv (A0 A : N -> arrs) (ts0 : list task) (t m : N) (q : list nat) (w : world) : Prop := {
+  mi_inert : inert (w_mail w);
+  mi_arr : Arr A t (w_tasks w) (w_mail w);
+  mi_base : Base A0 A ts0 (w_tasks w) (w_owner w) (w_nid w);
   mi_nodup : NoDup q;
-  mi_run : forall k, In k q -> runnable (w_tasks w) t m k;
+  mi_run : forall k, In k q -> runnable (w_tasks w) (w_mail w) t m k;
   mi_mid : Mid t (drv_of w m);
   mi_tie : Tie (w_tasks w) t q m (drv_of w m);
-  mi_live : NwLive (drv_of w m);
-  (* a task is woken only by a due timer, and then next_wakeup was due as well: it has been cleared *)
-  mi_nwq : forall k tk a, In k q -> nth_error (w_tasks w) k = Some tk -> t_cur tk = Some a -> next_wakeup (drv_of w m) = None }.
+  (* a receiver that is blocked while its channel holds a message is about to be polled; the
+     message was sent at this very instant *)
+  mi_recvq : forall k tk ch, nth_error (w_tasks w) k = Some tk -> waits_on (t_cur tk) = Some ch ->
+             chan (t_mod tk) ch (w_mail w) <> [] ->
+             t_mod tk = m /\ In k q /\ Forall (fun s => deadline s = t) (chan m ch (w_mail w)) }.
 
 Lemma poll_task_eq wfix now m k w tk steps cur iv dr nid lg sw mail :
   nth_error (w_tasks w) k = Some tk -> t_fin tk = false ->
@@ -309,19 +525,23 @@ Proof.
     (repeat split; try reflexivity); intros m' Hne; destruct (m' =? 0); try reflexivity; contradiction Hne; reflexivity.
 Qed.
 
-Lemma tstate_unspawned tk0 tk : tstate tk0 tk -> unspawned tk -> tk = tk0.
+Lemma tstate_unspawned A0 A tk0 tk : tstate A0 A tk0 tk -> unspawned tk -> tk = tk0.
 Proof.
-  intros [->|a st rest _ _ _ _ Hc _ _ _ _ _|_ _ _ _ _ Hf _] [Hc' Hf']; [reflexivity|rewrite Hc in Hc'; discriminate|rewrite Hf in Hf'; discriminate].
+  intros [-> _ _|a st rest _ _ _ _ Hc _ _ _ _ _ _ _ _|_ _ _ _ _ Hf _] [Hc' Hf']; [reflexivity|rewrite Hc in Hc'; discriminate|rewrite Hf in Hf'; discriminate].
 Qed.
 
-Lemma tstate_blocked tk0 tk a : tstate tk0 tk -> init_ok tk0 -> t_cur tk = Some a ->
-  exists st rest, t_mod tk = t_mod tk0 /\ t_start tk = t_start tk0 /\ t_steps tk = st :: rest /\ Forall frag_step rest /\
+Lemma tstate_blocked A0 A tk0 tk a : tstate A0 A tk0 tk -> init_ok2 A0 tk0 -> t_cur tk = Some a ->
+  exists st rest, t_mod tk = t_mod tk0 /\ t_start tk = t_start tk0 /\ t_steps tk = st :: rest /\ Forall (frag_step2 (rcv_of tk0)) rest /\
     t_fin tk = false /\ aw_kind a (t_iv tk) /\ Forall (fun s => handle s = Some (deadline s)) (aw_held a (t_iv tk)) /\
     NoDup (map sid (aw_held a (t_iv tk))) /\ held tk = aw_held a (t_iv tk) /\
-    expected tk0 = t_log tk ++ aw_rec a (t_iv tk) ++ exp_run (aw_end a (t_iv tk)) (iv_abs (iv_after a (t_iv tk))) rest.
+    expected A0 tk0 = t_log tk ++ aw_rec a (t_iv tk) (A (t_mod tk0)) ++
+                      exp_run (aw_end a (t_iv tk) (A (t_mod tk0))) (iv_abs (iv_after a (t_iv tk))) (aw_arr a (A (t_mod tk0))) rest /\
+    aw_ok a (A (t_mod tk0)) /\
+    recv_ok (aw_end a (t_iv tk) (A (t_mod tk0))) (iv_abs (iv_after a (t_iv tk))) (aw_arr a (A (t_mod tk0))) rest /\
+    (forall ch, waits_on (Some a) = Some ch -> rcv_of tk0 = true).
 Proof.
   intros H (_ & I2 & _) Hc.
-  destruct H as [->|a' st rest H1 H2 H3 H4 H5 H7 H8 H9 H10 H11|_ _ _ H4 _ _ _].
+  destruct H as [-> _ _|a' st rest H1 H2 H3 H4 H5 H7 H8 H9 H10 H11 H12 H13 H14|_ _ _ H4 _ _ _].
   - rewrite I2 in Hc. discriminate.
   - rewrite H5 in Hc. injection Hc as ->. exists st, rest. repeat split; try assumption. unfold held. rewrite H5. reflexivity.
   - rewrite H4 in Hc. discriminate.
@@ -330,7 +550,7 @@ Qed.
 Lemma aw_kind_idle a iv : aw_kind a iv -> a <> AwTick -> iv_idle iv.
 Proof.
   destruct a as [s|v dl|biased tie sa sb| | | | |rearm d3 s sx|pre s]; try contradiction; cbn [aw_kind]; try (intros H _; exact H).
-  - destruct v; try contradiction. intros H _; exact H.
+  - destruct v; try contradiction; intros H _; exact H.
   - intros [H _] _; exact H.
   - intros [H _] _; exact H.
 Qed.
@@ -349,21 +569,23 @@ Proof.
 Qed.
 
 (* when the woken task does not block again, its await completes at the wake instant *)
-Lemma aw_end_noreblock a iv t : aw_kind a iv -> aw_wake a iv = t -> aw_reblock t a = None -> aw_end a iv = t.
+Lemma aw_end_noreblock a iv arr t : aw_kind a iv -> waits_on (Some a) = None -> aw_wake a iv = t -> aw_reblock t a = None -> aw_end a iv arr = t.
 Proof.
-  intros Hk Hw Hrb. destruct a as [s|v dl|biased tie sa sb| | | | |rearm d3 s sx|pre s]; try contradiction; try exact Hw.
-  destruct Hk as [_ Hd3]. cbn [aw_wake] in Hw. cbn [aw_end].
-  destruct (deadline s <=? deadline sx) eqn:E; [lia|].
-  destruct rearm; [|lia]. cbn [aw_reblock] in Hrb. rewrite (dl_fin _ _ Hd3) in Hrb.
-  replace (deadline s <=? t) with false in Hrb by lia. destruct (t <? t + d3) eqn:E3; [discriminate|]. lia.
+  intros Hk Hnw Hw Hrb. destruct a as [s|v dl|biased tie sa sb| | | | |rearm d3 s sx|pre s]; try contradiction; try exact Hw.
+  - destruct v; try contradiction; [exact Hw|discriminate Hnw].
+  - destruct Hk as [_ Hd3]. cbn [aw_wake] in Hw. cbn [aw_end].
+    destruct (deadline s <=? deadline sx) eqn:E; [lia|].
+    destruct rearm; [|lia]. cbn [aw_reblock] in Hrb. rewrite (dl_fin _ _ Hd3) in Hrb.
+    replace (deadline s <=? t) with false in Hrb by lia. destruct (t <? t + d3) eqn:E3; [discriminate|]. lia.
 Qed.
 
 (* the future a woken task was blocked on completes: its Sleep that is still registered is
    dropped (or, for the kept timer that is re-armed, reset -- which removes its entry as well) *)
-Lemma woken_done ts0 ts own nid t m k r tk a iv dr :
-  Base ts0 ts own nid -> NoDup (k :: r) -> Mid t dr -> Tie ts t (k :: r) m dr ->
+Lemma woken_done A0 A ts0 ts own nid t m k r tk a iv dr :
+  Base A0 A ts0 ts own nid -> NoDup (k :: r) -> Mid t dr -> Tie ts t (k :: r) m dr ->
   nth_error ts k = Some tk -> t_mod tk = m -> t_cur tk = Some a -> aw_kind a iv -> held tk = aw_held a iv ->
-  Forall (fun s => handle s = Some (deadline s)) (aw_held a iv) -> NoDup (map sid (aw_held a iv)) -> aw_wake a iv = t ->
+  Forall (fun s => handle s = Some (deadline s)) (aw_held a iv) -> NoDup (map sid (aw_held a iv)) ->
+  (aw_wake a iv = t \/ (waits_on (Some a) <> None /\ t < aw_wake a iv)) ->
   let drc := aw_done t a dr in
   acts t dr drc /\
   (forall k' tk1 s, k' <> k -> nth_error ts k' = Some tk1 -> In s (held tk1) -> t_mod tk1 = m ->
@@ -377,7 +599,7 @@ Proof.
   (* entries of task k that are still in the driver have a deadline after t *)
   assert (Hown : forall d id, In id (ents_at d (pending dr)) -> forall s, In s (held tk) -> sid s = id -> deadline s = d /\ t < d).
   { intros d id Hin s Hs E. destruct (Ht d id Hin) as (k' & tk1 & s' & Hk' & Hs' & _ & E1 & E2).
-    assert (k' = k) by (apply (b_distinct _ _ _ _ Hbase k' k tk1 tk s' s Hk' Hk (held_owned _ _ Hs') (held_owned _ _ Hs)); congruence). subst k'.
+    assert (k' = k) by (apply (b_distinct _ _ _ _ _ _ Hbase k' k tk1 tk s' s Hk' Hk (held_owned _ _ Hs') (held_owned _ _ Hs)); congruence). subst k'.
     rewrite Hk in Hk'. injection Hk' as <-.
     assert (s' = s).
     { rewrite Hheld in Hs, Hs'. clear -Hndp Hs Hs' E E1. induction (aw_held a iv) as [|x l IH]; [contradiction|].
@@ -392,7 +614,7 @@ Proof.
   { intros d id Hin Hno. destruct (Ht d id Hin) as (k' & tk1 & s' & Hk' & Hs' & Hm' & E1 & E2).
     exists k', tk1, s'. repeat split; try assumption. intros ->. rewrite Hk in Hk'. injection Hk' as <-. exact (Hno s' Hs' E1). }
   assert (Hkeep : forall k' tk1 s, k' <> k -> nth_error ts k' = Some tk1 -> In s (held tk1) -> forall s0, In s0 (held tk) -> sid s <> sid s0).
-  { intros k' tk1 s Hne Hk' Hs s0 Hs0 E. apply Hne. exact (b_distinct _ _ _ _ Hbase k' k tk1 tk s s0 Hk' Hk (held_owned _ _ Hs) (held_owned _ _ Hs0) E). }
+  { intros k' tk1 s Hne Hk' Hs s0 Hs0 E. apply Hne. exact (b_distinct _ _ _ _ _ _ Hbase k' k tk1 tk s s0 Hk' Hk (held_owned _ _ Hs) (held_owned _ _ Hs0) E). }
   (* an await state with a single Sleep: it was popped; nothing of task k is left in the driver *)
   assert (Hsingle : forall s0, aw_held a iv = [s0] -> deadline s0 = t ->
      acts t dr dr /\
@@ -440,22 +662,34 @@ Proof.
     - intros s0 [<-|[<-|[]]] Hlt.
       + replace (deadline s1 <=? t) with false by lia. reflexivity.
       + replace (deadline s1 <=? t) with true by lia. reflexivity. }
+  assert (Hw' : waits_on (Some a) = None -> aw_wake a iv = t) by (intros Hnone; destruct Hw as [Hw|[Hw _]]; [exact Hw|contradiction]).
   destruct a as [s|v dl|biased tie sa sb| | | | |rearm d3 s sx|pre s]; try contradiction.
-  - cbn [aw_done]. apply (Hsingle s); [reflexivity|exact Hw].
-  - destruct v as [s| | |]; try contradiction. cbn [aw_wake] in Hw.
+  - specialize (Hw' eq_refl). clear Hw. rename Hw' into Hw. cbn [aw_done]. apply (Hsingle s); [reflexivity|exact Hw].
+  - destruct v as [s| |ch|]; try contradiction; cycle 1.
+    { (* a receive: woken by its message before the deadline -- the delay is dropped -- or by the delay *)
+      cbn [aw_wake waits_on] in Hw. cbn [aw_done].
+      destruct Hw as [Hw|[_ Hw]].
+      - replace (t <? deadline dl) with false by lia. apply (Hsingle dl); [reflexivity|exact Hw].
+      - replace (t <? deadline dl) with true by lia.
+        assert (Hsr : In dl (held tk)) by (rewrite Hheld; left; reflexivity).
+        split; [apply (acts_one t dr (DropEntry (sid dl) (deadline dl))); exact I|].
+        destruct (Hdrop dl) as [Hents Hndc]. apply (Hrem _ dl Hsr); [|exact Hents|exact Hndc].
+        intros s0 Hs0 _. rewrite Hheld in Hs0. destruct Hs0 as [<-|[]]. reflexivity. }
+    specialize (Hw' eq_refl). clear Hw. rename Hw' into Hw. cbn [aw_wake] in Hw.
     destruct (Hpair s dl eq_refl Hw) as [Hsr Honly]. set (sr := if deadline s <=? t then dl else s) in *.
     assert (Hdone : aw_done t (AwTimeout (VSleep s) dl) dr = drop_entry (sid sr) (deadline sr) dr) by (unfold sr; cbn [aw_done]; destruct (deadline s <=? t); reflexivity).
     rewrite Hdone. split; [apply (acts_one t dr (DropEntry (sid sr) (deadline sr))); exact I|].
     destruct (Hdrop sr) as [Hents Hndc]. exact (Hrem _ sr Hsr Honly Hents Hndc).
   - (* select over two sleeps: the loser is dropped *)
-    cbn [aw_wake] in Hw. destruct (Hpair sa sb eq_refl Hw) as [Hsr Honly]. set (sr := if deadline sa <=? t then sb else sa) in *.
+    specialize (Hw' eq_refl). clear Hw. rename Hw' into Hw. cbn [aw_wake] in Hw. destruct (Hpair sa sb eq_refl Hw) as [Hsr Honly]. set (sr := if deadline sa <=? t then sb else sa) in *.
     assert (Hdone : aw_done t (AwSelect biased tie sa sb) dr = drop_entry (sid sr) (deadline sr) dr) by (unfold sr; cbn [aw_done]; destruct (deadline sa <=? t); reflexivity).
     rewrite Hdone. split; [apply (acts_one t dr (DropEntry (sid sr) (deadline sr))); exact I|].
     destruct (Hdrop sr) as [Hents Hndc]. exact (Hrem _ sr Hsr Honly Hents Hndc).
   - (* the tick that was waited for *)
+    specialize (Hw' eq_refl). clear Hw. rename Hw' into Hw.
     destruct iv as [i|]; [|contradiction Hkind; reflexivity]. cbn [aw_done]. apply (Hsingle (iv_delay i)); [reflexivity|exact Hw].
   - (* the keep-alive select *)
-    cbn [aw_wake] in Hw. destruct (Hpair s sx eq_refl Hw) as [Hsr Honly].
+    specialize (Hw' eq_refl). clear Hw. rename Hw' into Hw. cbn [aw_wake] in Hw. destruct (Hpair s sx eq_refl Hw) as [Hsr Honly].
     cbn [aw_done]. destruct (deadline s <=? t) eqn:E.
     + split; [apply (acts_one t dr (DropEntry (sid sx) (deadline sx))); exact I|].
       destruct (Hdrop sx) as [Hents Hndc]. exact (Hrem _ sx Hsr Honly Hents Hndc).
@@ -475,205 +709,527 @@ Proof.
       * split; [apply (acts_one t dr (DropEntry (sid s) (deadline s))); exact I|].
         destruct (Hdrop s) as [Hents Hndc]. exact (Hrem _ s Hsr Honly Hents Hndc).
   - (* the re-armed kept timer *)
-    cbn [aw_done]. apply (Hsingle s); [reflexivity|exact Hw].
+    specialize (Hw' eq_refl). clear Hw. rename Hw' into Hw. cbn [aw_done]. apply (Hsingle s); [reflexivity|exact Hw].
 Qed.
 
 (* the woken task blocks again at once: on the kept timer, re-armed for a later instant *)
-Lemma reblock_ok t nid (old : N -> Prop) drc a a' iv rest st :
-  aw_kind a iv -> aw_wake a iv = t -> aw_reblock t a = Some a' -> Forall frag_step rest ->
+Lemma reblock_ok t nid m k rcv (old : N -> Prop) drc mail arr a a' iv rest st :
+  aw_kind a iv -> aw_wake a iv = t -> aw_reblock t a = Some a' -> Forall (frag_step2 rcv) rest ->
   sorted (pending drc) ->
   (forall s, In s (aw_held a iv) -> old (sid s)) -> (forall id, iv_ids iv id -> old id) ->
+  recv_ok (aw_end a iv arr) (iv_abs (iv_after a iv)) (aw_arr a arr) rest ->
   exists pre s', a' = AwThen pre s' /\
-    poll_ok t nid old drc (aw_rec a iv ++ exp_run (aw_end a iv) (iv_abs (iv_after a iv)) rest)
-      ([], Some (a', iv, st :: rest), nid, register (sid s') (deadline s') drc) /\
+    poll_ok t nid m k rcv old drc mail arr
+      (aw_rec a iv arr ++ exp_run (aw_end a iv arr) (iv_abs (iv_after a iv)) (aw_arr a arr) rest)
+      (exp_sends (aw_end a iv arr) (iv_abs (iv_after a iv)) rest)
+      ([], Some (a', iv, st :: rest), nid, register (sid s') (deadline s') drc, mail) /\
     (wres (Some (a', iv, st :: rest)) + 1 <= 2 * length (st :: rest) + match a with AwKeep true _ _ _ => 1 | _ => 0 end)%nat.
 Proof.
-  intros Hk Hw Hrb Hrest Hs Hold Hivo. destruct a as [s|v dl| | | | | |rearm d3 s sx|pre s]; try discriminate.
+  intros Hk Hw Hrb Hrest Hs Hold Hivo Hro. destruct a as [s|v dl| | | | | |rearm d3 s sx|pre s]; try discriminate.
   destruct rearm; [|discriminate]. destruct Hk as [Hi Hd3]. cbn [aw_reblock] in Hrb. rewrite (dl_fin _ _ Hd3) in Hrb.
   destruct (deadline s <=? t) eqn:E; [discriminate|]. destruct (t <? t + d3) eqn:E3; [|discriminate]. injection Hrb as <-.
   cbn [aw_wake] in Hw. exists [t; 1], (reg (sid s) (t + d3)). split; [reflexivity|]. split.
-  - unfold poll_ok. split; [lia|]. split; [apply (acts_one t drc (Register (sid s) (t + d3))); cbn [op_wf]; lia|]. split.
+  - unfold poll_ok, poll_body. split; [lia|]. split; [apply (acts_one t drc (Register (sid s) (t + d3))); cbn [op_wf]; lia|]. split.
     + intros y. cbn [register set_pending pending reg sid deadline]. rewrite (ents_at_add _ _ _ _ Hs).
       unfold new_at. cbn [aw_held held_sleeps filter reg deadline sid map].
       destruct (y =? t + d3) eqn:E1.
       * replace y with (t + d3) by lia. rewrite N.eqb_refl. reflexivity.
       * replace (t + d3 =? y) with false by lia. rewrite app_nil_r. reflexivity.
-    + exists st, rest. split; [reflexivity|]. split; [exact Hrest|].
-      cbn [aw_rec aw_end aw_wake reg deadline app iv_after]. split.
-      * replace (deadline s <=? deadline sx) with false by lia. replace (deadline sx) with t by lia. reflexivity.
-      * unfold blocked_ok. cbn [aw_kind aw_wake aw_held held_sleeps reg deadline sid handle map].
+    + exists arr, st, rest. split; [reflexivity|]. split; [exact Hrest|].
+      cbn [aw_rec aw_end aw_wake aw_arr reg deadline app iv_after] in *.
+      replace (deadline s <=? deadline sx) with false in * by lia. replace (deadline sx) with t in * by lia.
+      split; [reflexivity|]. split.
+      { unfold blocked_ok. cbn [aw_kind aw_wake aw_held held_sleeps reg deadline sid handle map].
         split; [exact Hi|]. split; [lia|]. split; [repeat constructor; intros []|]. split.
-        -- constructor; [|constructor]. unfold reg; cbn [deadline handle sid]. split; [lia|]. split; [reflexivity|].
-           right. apply Hold. left; reflexivity.
-        -- intros id Hid. right. exact (Hivo id Hid).
+        - constructor; [|constructor]. unfold reg; cbn [deadline handle sid]. split; [lia|]. split; [reflexivity|].
+          right. apply Hold. left; reflexivity.
+        - intros id Hid. right. exact (Hivo id Hid). }
+      split; [apply mail_ok_refl|]. split; [exact I|]. split; [exact Hro|]. intros ch H; discriminate.
   - unfold wres. cbn [fr_steps fr_cur]. lia.
 Qed.
 
+(* the arrivals a receiver expects, from the invariant of the channels *)
+Lemma arr_la A t ts mail m : Arr A t ts mail -> LA t m mail (A m).
+Proof.
+  intros H c. destruct (H m c) as (E & F1 & F2). exists (isort (fsends m c ts)). split; [exact E|]. split; [exact F1|].
+  apply isort_forall. exact F2.
+Qed.
+
+Lemma enqueue_in q ks x : In x (enqueue q ks) <-> In x q \/ (In x ks /\ ~ In x q).
+Proof.
+  unfold enqueue. rewrite in_app_iff, filter_In. split.
+  - intros [H|[H1 H2]]; [left; exact H|right; split; [exact H1|]]. intros Hin. apply negb_true_iff in H2.
+    assert (existsb (Nat.eqb x) q = true) by (apply existsb_exists; exists x; split; [exact Hin|apply Nat.eqb_refl]). congruence.
+  - intros [H|[H1 H2]]; [left; exact H|right; split; [exact H1|]]. apply negb_true_iff. apply not_true_is_false. intros Hex.
+    apply existsb_exists in Hex. destruct Hex as (y & Hy & E). apply Nat.eqb_eq in E. subst y. exact (H2 Hy).
+Qed.
+
+Lemma ready_receivers_in m mail ts : forall i x, In x (ready_receivers m mail i ts) <->
+  exists tk ch, (i <= x)%nat /\ nth_error ts (x - i) = Some tk /\ waits_on (t_cur tk) = Some ch /\ t_mod tk = m /\ chan m ch mail <> [].
+Proof.
+  induction ts as [|tk r IH]; intros i x; cbn [ready_receivers].
+  - split; [intros []|intros (tk & ch & _ & H & _); destruct (x - i)%nat; discriminate].
+  - assert (Hrest : In x (ready_receivers m mail (S i) r) <->
+        exists tk1 ch, (i <= x)%nat /\ x <> i /\ nth_error (tk :: r) (x - i) = Some tk1 /\ waits_on (t_cur tk1) = Some ch /\ t_mod tk1 = m /\ chan m ch mail <> []).
+    { rewrite IH. split.
+      - intros (tk1 & ch & H1 & H2 & H3). exists tk1, ch. split; [lia|]. split; [lia|]. replace (x - i)%nat with (S (x - S i)) by lia. exact (conj H2 H3).
+      - intros (tk1 & ch & H1 & Hne & H2 & H3). exists tk1, ch. split; [lia|]. replace (x - i)%nat with (S (x - S i)) in H2 by lia. exact (conj H2 H3). }
+    assert (Hhere : forall ch, waits_on (t_cur tk) = Some ch ->
+        ((t_mod tk =? m) && (match mail_take m ch mail with Some _ => true | None => false end) = true <-> t_mod tk = m /\ chan m ch mail <> [])).
+    { intros ch _. rewrite andb_true_iff. split.
+      - intros [H1 H2]. split; [lia|]. intros Hn. apply mail_take_none in Hn. rewrite Hn in H2. discriminate.
+      - intros [H1 H2]. split; [lia|]. destruct (mail_take m ch mail) eqn:Em; [reflexivity|]. apply mail_take_none in Em. contradiction. }
+    destruct (waits_on (t_cur tk)) as [ch|] eqn:Ew.
+    + destruct ((t_mod tk =? m) && (match mail_take m ch mail with Some _ => true | None => false end)) eqn:Eb.
+      * cbn [In]. rewrite Hrest. split.
+        -- intros [<-|(tk1 & ch1 & H1 & _ & H2)]; [|exists tk1, ch1; exact (conj H1 H2)].
+           exists tk, ch. rewrite Nat.sub_diag. destruct (proj1 (Hhere ch eq_refl) Eb) as [G1 G2]. repeat split; try assumption; lia.
+        -- intros (tk1 & ch1 & H1 & H2 & H3). destruct (Nat.eq_dec x i) as [->|Hne]; [left; reflexivity|right].
+           exists tk1, ch1. repeat split; try assumption. exact (proj1 H3). exact (proj1 (proj2 H3)). exact (proj2 (proj2 H3)).
+      * rewrite Hrest. split.
+        -- intros (tk1 & ch1 & H1 & _ & H2). exists tk1, ch1. exact (conj H1 H2).
+        -- intros (tk1 & ch1 & H1 & H2 & H3 & H4 & H5). exists tk1, ch1. split; [exact H1|]. split; [|exact (conj H2 (conj H3 (conj H4 H5)))].
+           intros ->. rewrite Nat.sub_diag in H2. injection H2 as <-. rewrite Ew in H3. injection H3 as <-.
+           assert (true = false) by (rewrite <- Eb; symmetry; apply (Hhere ch eq_refl); split; assumption). discriminate.
+    + rewrite Hrest. split.
+      * intros (tk1 & ch1 & H1 & _ & H2). exists tk1, ch1. exact (conj H1 H2).
+      * intros (tk1 & ch1 & H1 & H2 & H3 & H4). exists tk1, ch1. split; [exact H1|]. split; [|exact (conj H2 (conj H3 H4))].
+        intros ->. rewrite Nat.sub_diag in H2. injection H2 as <-. rewrite Ew in H3. discriminate.
+Qed.
+
+Lemma ready_receivers_nodup m mail ts : forall i, NoDup (ready_receivers m mail i ts).
+Proof.
+  induction ts as [|tk r IH]; intros i; cbn [ready_receivers]; [constructor|].
+  assert (Hlt : forall x, In x (ready_receivers m mail (S i) r) -> (S i <= x)%nat).
+  { intros x Hx. apply ready_receivers_in in Hx. destruct Hx as (_ & _ & H & _). exact H. }
+  destruct (waits_on (t_cur tk)); [|apply IH].
+  destruct ((t_mod tk =? m) && _); [|apply IH]. constructor; [|apply IH]. intros Hin. specialize (Hlt i Hin). lia.
+Qed.
+
+Lemma enqueue_nodup q ks : NoDup q -> NoDup ks -> NoDup (enqueue q ks).
+Proof.
+  intros Hq Hk. unfold enqueue. apply NoDup_app_intro; [exact Hq|apply NoDup_filter; exact Hk|].
+  intros x H1 H2. apply filter_In in H2. destruct H2 as [_ H2]. apply negb_true_iff in H2.
+  assert (existsb (Nat.eqb x) q = true) by (apply existsb_exists; exists x; split; [exact H1|apply Nat.eqb_refl]). congruence.
+Qed.
+
+Lemma Tie_mono ts t q q' m dr : (forall x, In x q -> In x q') -> Tie ts t q m dr -> Tie ts t q' m dr.
+Proof.
+  intros Hsub [He Ht Hn]. constructor; [|exact Ht|exact Hn].
+  intros k tk s Hk Hs Hm Hq. apply (He k tk s Hk Hs Hm). destruct Hq as [Hq|Hq]; [left; intros H; exact (Hq (Hsub k H))|right; exact Hq].
+Qed.
+
+Lemma nodup_all_equal {X} (l : list X) : NoDup l -> (forall x y, In x l -> In y l -> x = y) -> (length l <= 1)%nat.
+Proof.
+  intros Hn He. destruct l as [|x [|y r]]; cbn [length]; try lia. exfalso.
+  inversion Hn as [|? ? Hx _]; subst. apply Hx. left. apply He; [right; left; reflexivity|left; reflexivity].
+Qed.
+
+(* a receive that is blocked: its shape *)
+Lemma waits_recv a iv ch : aw_kind a iv -> waits_on (Some a) = Some ch -> exists dl, a = AwTimeout (VRecv ch) dl.
+Proof.
+  destruct a as [s|v dl| | | | | | |]; try contradiction; cbn [waits_on]; try discriminate.
+  destruct v; try contradiction; try discriminate. intros _ H. injection H as <-. exists dl. reflexivity.
+Qed.
+
 (* one poll *)
-Lemma poll_task_minv ts0 t m k r w : MInv ts0 t m (k :: r) w ->
+Lemma poll_task_minv A0 A ts0 t m k r w : MInv A0 A ts0 t m (k :: r) w ->
   let w' := fst (poll_task true t m k w) in
-  snd (poll_task true t m k w) = false /\ MInv ts0 t m r w' /\
+  let q' := enqueue r (ready_receivers m (w_mail w') 0 (w_tasks w')) in
+  snd (poll_task true t m k w) = false /\ (exists A', MInv A0 A' ts0 t m q' w') /\
   w_fes w' = w_fes w /\ w_now w' = w_now w /\
   (forall m', (m' =? 0) <> (m =? 0) -> drv_of w' m' = drv_of w m') /\
   (forall k', k' <> k -> nth_error (w_tasks w') k' = nth_error (w_tasks w) k') /\
   length (w_tasks w') = length (w_tasks w) /\ w_nid w <= w_nid w' /\
   (forall tk', nth_error (w_tasks w') k = Some tk' -> ~ unspawned tk') /\
-  (work (w_tasks w') + 1 <= work (w_tasks w))%nat.
+  (work (w_tasks w') + 1 <= work (w_tasks w))%nat /\
+  (length q' + psends (w_tasks w') <= length r + psends (w_tasks w))%nat.
 Proof.
-  intros [Hmail Hbase Hnd Hrun Hmid Htie Hlive Hnwq]. cbn zeta.
+  intros [Hinert Harr Hbase Hnd Hrun Hmid Htie Hrq]. cbn zeta.
   destruct (Hrun k (or_introl eq_refl)) as (tk & Hk & Hmod & Hcase).
-  destruct (Forall2_nth _ _ _ _ _ (b_states _ _ _ _ Hbase) Hk) as (tk0 & Hk0 & Hts).
-  assert (Hi0 : init_ok tk0).
-  { pose proof (b_init _ _ _ _ Hbase) as Hall. rewrite Forall_forall in Hall. apply Hall. eapply nth_error_In; exact Hk0. }
+  destruct (Forall2_nth _ _ _ _ _ (b_states _ _ _ _ _ _ Hbase) Hk) as (tk0 & Hk0 & Hts).
+  assert (Hi0 : init_ok2 A0 tk0).
+  { pose proof (b_init _ _ _ _ _ _ Hbase) as Hall. rewrite Forall_forall in Hall. apply Hall. eapply nth_error_In; exact Hk0. }
+  assert (Em : t_mod tk0 = m).
+  { destruct (tstate_cases _ _ _ _ Hts Hi0) as (E1 & _). rewrite <- E1. exact Hmod. }
   assert (Hfresh0 : forall x id, In id (ents_at x (pending (drv_of w m))) -> id < w_nid w).
   { intros x id Hin. destruct (tie_task _ _ _ _ _ Htie x id Hin) as (k' & tk1 & s & Hk' & Hs & _ & E1 & _). rewrite <- E1.
-    exact (proj1 (b_ids _ _ _ _ Hbase k' tk1 s Hk' Hs)). }
+    exact (proj1 (b_ids _ _ _ _ _ _ Hbase k' tk1 s Hk' Hs)). }
+  pose proof (arr_la A t (w_tasks w) (w_mail w) m Harr) as Hla.
   (* the common shape of all cases: after the awaited future (if any) has completed -- driver [drc] -- the poll leaves
-     a result that meets [poll_ok] against the log [E] still demanded *)
-  assert (Hgen : exists L E drc (old : N -> Prop) o b n dr',
-            expected tk0 = L ++ E /\ t_fin tk = false /\ t_mod tk = t_mod tk0 /\ t_start tk = t_start tk0 /\
+     a result that meets [poll_ok] against the log [E] still demanded and the messages [S] still to be sent *)
+  assert (Hgen : exists L E S drc (old : N -> Prop) o b n dr' ml,
+            expected A0 tk0 = L ++ E /\ t_fin tk = false /\ t_mod tk = t_mod tk0 /\ t_start tk = t_start tk0 /\
             run_steps t m k (t_steps tk) (t_cur tk) (t_iv tk) (drv_of w m) (w_nid w) (t_log tk) (w_mail w) =
-              (fr_steps b, fr_cur b, fr_iv b, dr', n, L ++ o, false, []) /\
-            poll_ok t (w_nid w) old drc E (o, b, n, dr') /\
+              (fr_steps b, fr_cur b, fr_iv b, dr', n, L ++ o, false, ml) /\
+            poll_ok t (w_nid w) m k (rcv_of tk0) old drc (w_mail w) (A m) E S (o, b, n, dr', ml) /\
+            fut_sends tk = S /\
             (forall id, old id -> exists s, In s (owned tk) /\ sid s = id) /\
             (wres b + 1 <= wt tk)%nat /\
-            acts t (drv_of w m) drc /\ NwLive drc /\
+            acts t (drv_of w m) drc /\
             (forall k' tk1 s, k' <> k -> nth_error (w_tasks w) k' = Some tk1 -> In s (held tk1) -> t_mod tk1 = m ->
                (~ In k' r \/ t < deadline s) -> In (sid s) (ents_at (deadline s) (pending drc))) /\
             (forall d id, In id (ents_at d (pending drc)) ->
                exists k' tk1 s, k' <> k /\ nth_error (w_tasks w) k' = Some tk1 /\ In s (held tk1) /\ t_mod tk1 = m /\ sid s = id /\ deadline s = d) /\
             (forall d, NoDup (ents_at d (pending drc)))).
-  { (* a task that runs [Sx] from scratch, with interval iv0, on driver drc *)
-    assert (Hscratch : forall L Sx drc iv0, Forall frag_step Sx -> iv_idle iv0 -> Mid t drc ->
+  { (* a task that runs [Sx] from scratch, with interval iv0, on driver drc, channels mail1, expecting arr1 *)
+    assert (Hscratch : forall L Sx drc iv0 mail1 arr1, Forall (frag_step2 (rcv_of tk0)) Sx -> iv_idle iv0 -> Mid t drc ->
               (forall x id, In id (ents_at x (pending drc)) -> id < w_nid w) ->
+              inert mail1 -> (rcv_of tk0 = true -> LA t m mail1 arr1) -> recv_ok t (iv_abs iv0) arr1 Sx ->
               run_steps t m k (t_steps tk) (t_cur tk) (t_iv tk) (drv_of w m) (w_nid w) (t_log tk) (w_mail w) =
-                run_steps t m k Sx None iv0 drc (w_nid w) L [] ->
-              exists o b n dr',
+                run_steps t m k Sx None iv0 drc (w_nid w) L mail1 ->
+              exists o b n dr' ml,
                 run_steps t m k (t_steps tk) (t_cur tk) (t_iv tk) (drv_of w m) (w_nid w) (t_log tk) (w_mail w) =
-                  (fr_steps b, fr_cur b, fr_iv b, dr', n, L ++ o, false, []) /\
-                poll_ok t (w_nid w) (iv_ids iv0) drc (exp_run t (iv_abs iv0) Sx) (o, b, n, dr') /\
+                  (fr_steps b, fr_cur b, fr_iv b, dr', n, L ++ o, false, ml) /\
+                poll_ok t (w_nid w) m k (rcv_of tk0) (iv_ids iv0) drc mail1 arr1 (exp_run t (iv_abs iv0) arr1 Sx) (exp_sends t (iv_abs iv0) Sx) (o, b, n, dr', ml) /\
                 (wres b <= 2 * length Sx + 1)%nat).
-    { intros L Sx drc iv0 HS Hidle Hmidc Hfresh Hrs.
-      rewrite (run_steps_frag t m k Sx HS iv0 _ _ _ _ Hidle) in Hrs.
-      pose proof (frag_run_spec t Sx HS (w_nid w) iv0 drc Hidle Hmidc Hfresh) as Hspec.
-      pose proof (frag_run_len t Sx (w_nid w) iv0 drc) as Hl.
-      destruct (frag_run t (w_nid w) iv0 Sx drc) as [[[o b] n] dr']. cbn [fst snd] in Hl.
-      exists o, b, n, dr'. split; [exact Hrs|]. split; [exact Hspec|].
+    { intros L Sx drc iv0 mail1 arr1 HS Hidle Hmidc Hfresh Hin1 Hla1 Hok1 Hrs.
+      rewrite (run_steps_frag t m k _ Sx HS iv0 _ _ _ _ Hidle) in Hrs.
+      pose proof (frag_run_spec t m k _ Sx HS (w_nid w) iv0 drc mail1 arr1 Hidle Hmidc Hfresh Hin1 Hla1 Hok1) as Hspec.
+      pose proof (frag_run_len t m k Sx (w_nid w) iv0 drc mail1) as Hl.
+      destruct (frag_run t (w_nid w) m k iv0 Sx drc mail1) as [[[[o b] n] dr'] ml]. cbn [fst snd] in Hl.
+      exists o, b, n, dr', ml. split; [exact Hrs|]. split; [exact Hspec|].
       unfold wres. destruct (fr_cur b) as [[]|]; try lia. destruct rearm; lia. }
-    destruct Hcase as [(Hun & Hst)|(a & Hc & Hwk)].
-    - pose proof (tstate_unspawned _ _ Hts Hun) as ->. destruct Hi0 as (I1 & I2 & I3 & I4 & I5 & I6).
+    destruct Hcase as [(Hun & Hst)|(a & Hc & Hcase')].
+    - (* spawned now *)
+      pose proof (tstate_unspawned _ _ _ _ Hts Hun) as ->. destruct Hi0 as (I1 & I2 & I3 & I4 & I5 & I6).
+      assert (Htu : expected A0 tk0 = exp_run t None (A m) (t_steps tk0) /\ recv_ok t None (A m) (t_steps tk0)).
+      { destruct Hts as [_ H1 H2|a st rest _ _ _ _ H5 _ _ _ _ _ _ _ _|_ _ _ _ _ H6 _]; [rewrite Em, Hst in *; split; assumption|congruence|congruence]. }
+      destruct Htu as [Hte Hto].
       destruct Htie as [He Ht Hn].
-      destruct (Hscratch [] (t_steps tk0) (drv_of w m) None I1 I Hmid Hfresh0) as (o & b & n & dr' & Hrs & Hspec & Hwr).
-      { rewrite Hmail, I2, I3, I4. reflexivity. }
-      exists [], (exp_run t (iv_abs None) (t_steps tk0)), (drv_of w m), (iv_ids None), o, b, n, dr'.
-      split; [unfold expected; rewrite Hst; reflexivity|]. split; [exact I5|]. split; [reflexivity|]. split; [reflexivity|].
-      split; [exact Hrs|]. split; [exact Hspec|]. split; [intros id (i & E & _); discriminate|].
+      destruct (Hscratch [] (t_steps tk0) (drv_of w m) None (w_mail w) (A m) I1 I Hmid Hfresh0 Hinert (fun _ => Hla) Hto)
+        as (o & b & n & dr' & ml & Hrs & Hspec & Hwr).
+      { rewrite I2, I3, I4. reflexivity. }
+      exists [], (exp_run t None (A m) (t_steps tk0)), (exp_sends t None (t_steps tk0)), (drv_of w m), (iv_ids None), o, b, n, dr', ml.
+      split; [exact Hte|]. split; [exact I5|]. split; [reflexivity|]. split; [reflexivity|].
+      split; [exact Hrs|]. split; [exact Hspec|].
+      split; [unfold fut_sends; rewrite I2, I5, Hst; reflexivity|].
+      split; [intros id (i & E & _); discriminate|].
       split; [unfold wt; rewrite I2, I5; lia|].
-      split; [apply acts_refl|]. split; [exact Hlive|].
+      split; [apply acts_refl|].
       split; [|split; [|exact Hn]].
       + intros k' tk1 s Hne Hk' Hs Hm1 Hq. apply (He k' tk1 s Hk' Hs Hm1). destruct Hq as [Hq|Hq]; [left|right; exact Hq].
         intros [E|E]; [apply Hne; symmetry; exact E|exact (Hq E)].
       + intros d id Hin. destruct (Ht d id Hin) as (k' & tk1 & s & Hk' & Hs & Hm1 & E1 & E2).
         exists k', tk1, s. repeat split; try assumption. intros ->. rewrite Hk in Hk'. injection Hk' as <-.
         unfold held in Hs. rewrite I2 in Hs. contradiction.
-    - destruct (tstate_blocked _ _ _ Hts Hi0 Hc) as (st & rest & H1 & H2 & H3 & H4 & H7 & Hkind & Hh & Hndp & Hheld & H8).
-      destruct (woken_done ts0 (w_tasks w) (w_owner w) (w_nid w) t m k r tk a (t_iv tk) (drv_of w m) Hbase Hnd Hmid Htie Hk Hmod Hc Hkind Hheld Hh Hndp Hwk)
-        as (Ha & Ge & Gt & Gn).
-      assert (Hmidc : Mid t (aw_done t a (drv_of w m))) by exact (acts_mid _ _ _ Ha Hmid).
-      assert (Hfreshc : forall x id, In id (ents_at x (pending (aw_done t a (drv_of w m)))) -> id < w_nid w).
-      { intros x id Hin. destruct (Gt x id Hin) as (k' & tk1 & s & _ & Hk' & Hs & _ & E1 & _). rewrite <- E1.
-        exact (proj1 (b_ids _ _ _ _ Hbase k' tk1 s Hk' Hs)). }
-      assert (Hlc : NwLive (aw_done t a (drv_of w m))).
-      { (* next_wakeup was cleared when the task was woken *)
-        intros x Hx. destruct Ha as (ops & _ & Eq). rewrite Eq in Hx. rewrite (proj1 (apply_ops_rest_nw ops _)) in Hx.
-        rewrite (Hnwq k tk a (or_introl eq_refl) Hk Hc) in Hx. discriminate. }
+    - (* woken *)
+      destruct (tstate_blocked _ _ _ _ _ Hts Hi0 Hc) as (st & rest & H1 & H2 & H3 & H4 & H7 & Hkind & Hh & Hndp & Hheld & H8 & Hao & H13 & H14).
+      rewrite Em in *.
       assert (Hivown : forall id, iv_ids (t_iv tk) id -> exists s, In s (owned tk) /\ sid s = id).
       { intros id (i & Ei & ->). exists (iv_delay i). split; [|reflexivity].
         unfold owned. rewrite Ei. apply in_or_app. right. left. reflexivity. }
-      destruct (aw_reblock t a) as [a'|] eqn:Erb.
-      + (* blocked again at once *)
-        set (old := fun id => exists s, In s (owned tk) /\ sid s = id).
-        destruct (reblock_ok t (w_nid w) old (aw_done t a (drv_of w m)) a a' (t_iv tk) rest st Hkind Hwk Erb H4 (mid_sorted _ _ Hmidc))
-          as (pre & s' & Ea' & Hspec & Hwr).
-        { intros s Hs. exists s. split; [apply held_owned; rewrite Hheld; exact Hs|reflexivity]. }
-        { exact Hivown. }
-        destruct (run_steps_reblock t m k st rest a a' (t_iv tk) (drv_of w m) (w_nid w) (t_log tk) [] Hkind Hh Hwk Erb) as (pre2 & s2 & Ea2 & Hrs).
-        rewrite Ea' in Ea2. injection Ea2 as <- <-.
-        exists (t_log tk), (aw_rec a (t_iv tk) ++ exp_run (aw_end a (t_iv tk)) (iv_abs (iv_after a (t_iv tk))) rest),
-               (aw_done t a (drv_of w m)), old, [], (Some (a', t_iv tk, st :: rest)), (w_nid w), (register (sid s') (deadline s') (aw_done t a (drv_of w m))).
-        split; [exact H8|]. split; [exact H7|]. split; [exact H1|]. split; [exact H2|].
-        split; [rewrite Hmail, H3, Hc, app_nil_r; exact Hrs|]. split; [exact Hspec|]. split; [intros id H; exact H|].
-        split; [unfold wt; rewrite H3, Hc; destruct a as [| | | | | | |[] ? ? ?|]; cbn [length] in *; lia|].
-        split; [exact Ha|]. split; [exact Hlc|]. split; [exact Ge|split; [exact Gt|exact Gn]].
-      + destruct (Hscratch (t_log tk ++ aw_rec a (t_iv tk)) rest (aw_done t a (drv_of w m)) (iv_after a (t_iv tk)) H4
-                    (iv_after_idle _ _ Hkind) Hmidc Hfreshc) as (o & b & n & dr' & Hrs & Hspec & Hwr).
-        { rewrite Hmail, H3, Hc. apply run_steps_woken; assumption. }
-        exists (t_log tk ++ aw_rec a (t_iv tk)), (exp_run t (iv_abs (iv_after a (t_iv tk))) rest), (aw_done t a (drv_of w m)),
-               (iv_ids (iv_after a (t_iv tk))), o, b, n, dr'.
-        split; [rewrite H8, (aw_end_noreblock _ _ _ Hkind Hwk Erb), <- app_assoc; reflexivity|]. split; [exact H7|]. split; [exact H1|]. split; [exact H2|].
-        split; [exact Hrs|]. split; [exact Hspec|]. split; [intros id Hid; exact (Hivown id (iv_after_ids _ _ _ Hid))|].
-        split; [unfold wt; rewrite H3; cbn [length]; lia|].
-        split; [exact Ha|]. split; [exact Hlc|]. split; [exact Ge|split; [exact Gt|exact Gn]]. }
-  destruct Hgen as (L & E & drc & old & o & b & n & dr' & Hexp & Hfin & Hm0 & Hs0 & Hrs & Hspec & Hold & Hwt & Hac & Hlc & Ge & Gt & Gn).
+      assert (Hwd : forall Hw : aw_wake a (t_iv tk) = t \/ (waits_on (Some a) <> None /\ t < aw_wake a (t_iv tk)),
+                let drc := aw_done t a (drv_of w m) in
+                acts t (drv_of w m) drc /\ Mid t drc /\ (forall x id, In id (ents_at x (pending drc)) -> id < w_nid w) /\
+                (forall k' tk1 s, k' <> k -> nth_error (w_tasks w) k' = Some tk1 -> In s (held tk1) -> t_mod tk1 = m ->
+                   (~ In k' r \/ t < deadline s) -> In (sid s) (ents_at (deadline s) (pending drc))) /\
+                (forall d id, In id (ents_at d (pending drc)) ->
+                   exists k' tk1 s, k' <> k /\ nth_error (w_tasks w) k' = Some tk1 /\ In s (held tk1) /\ t_mod tk1 = m /\ sid s = id /\ deadline s = d) /\
+                (forall d, NoDup (ents_at d (pending drc)))).
+      { intros Hw. destruct (woken_done A0 A ts0 (w_tasks w) (w_owner w) (w_nid w) t m k r tk a (t_iv tk) (drv_of w m) Hbase Hnd Hmid Htie Hk Hmod Hc Hkind Hheld Hh Hndp Hw)
+          as (Ha & Ge & Gt & Gn). cbn zeta.
+        split; [exact Ha|]. split; [exact (acts_mid _ _ _ Ha Hmid)|]. split; [|split; [exact Ge|split; [exact Gt|exact Gn]]].
+        intros x id Hin. destruct (Gt x id Hin) as (k' & tk1 & s & _ & Hk' & Hs & _ & E1 & _). rewrite <- E1.
+        exact (proj1 (b_ids _ _ _ _ _ _ Hbase k' tk1 s Hk' Hs)). }
+      destruct (waits_on (Some a)) as [ch|] eqn:Ew.
+      + (* a receive *)
+        destruct (waits_recv a _ ch Hkind Ew) as (dl & ->). specialize (H14 ch eq_refl).
+        cbn [aw_wake aw_held held_sleeps] in *. pose proof (Forall_inv Hh) as Hdl. cbn beta in Hdl.
+        destruct Hao as [Hfin Htie0]. destruct (Harr m ch) as (EA & F1 & F2).
+        destruct (mail_take m ch (w_mail w)) as [[s mail1]|] eqn:Emt.
+        * (* its message is there: Ok *)
+          destruct (mail_take_some _ _ _ _ _ Emt) as (Ec & Eo & Ei). destruct (Ei Hinert) as [Hs0 Hin1]. clear Ei.
+          assert (Hne0 : chan (t_mod tk) ch (w_mail w) <> []) by (rewrite Hmod, Ec; discriminate).
+          destruct (Hrq k tk ch Hk ltac:(rewrite Hc; reflexivity) Hne0) as (_ & _ & Hnow). rewrite Ec in Hnow. pose proof (Forall_inv Hnow) as Hst. cbn beta in Hst.
+          unfold chan_inst in EA, F1. rewrite Ec in EA, F1. cbn [map app] in EA, F1. rewrite Hst in EA, F1. rewrite EA in Htie0.
+          assert (Hlt : t < deadline dl).
+          { destruct Hcase' as [Hw|(ch' & _ & _ & Hw)]; [congruence|exact Hw]. }
+          assert (Hhit : aw_hit (deadline dl) (A m ch) = Some t).
+          { rewrite EA. cbn [aw_hit]. replace (t <? deadline dl) with true by lia. reflexivity. }
+          cbn [aw_rec aw_end aw_arr iv_after] in H8, H13. rewrite Hhit in H8, H13.
+          assert (Hwn : waits_on (Some (AwTimeout (VRecv ch) dl)) <> None) by discriminate.
+          destruct (Hwd (or_intror (conj Hwn Hlt))) as (Ha & Hmidc & Hfreshc & Ge & Gt & Gn).
+          cbn [aw_done] in Ha, Hmidc, Hfreshc, Ge, Gt, Gn. replace (t <? deadline dl) with true in Ha, Hmidc, Hfreshc, Ge, Gt, Gn by lia.
+          pose proof (run_steps_woken_recv t m k st rest ch dl (t_iv tk) (drv_of w m) (w_nid w) (t_log tk) (w_mail w) Hdl) as Hrw.
+          rewrite Emt in Hrw. unfold sleep_drop in Hrw at 1. rewrite Hs0 in Hrw.
+          assert (Hla1 : rcv_of tk0 = true -> LA t m mail1 (arr_pop (A m) ch)).
+          { intros _ c. unfold arr_pop. destruct (c =? ch) eqn:E.
+            - replace c with ch by lia. exists (isort (fsends m ch (w_tasks w))). rewrite EA. cbn [tl]. pose proof (Forall_inv_tail F1) as F1'.
+              split; [reflexivity|]. split; [exact F1'|apply isort_forall; exact F2].
+            - rewrite (Eo m c) by (rewrite N.eqb_refl, E; reflexivity). apply Hla. }
+          destruct (Hscratch (t_log tk ++ [t; 1]) rest (drop_entry (sid dl) (deadline dl) (drv_of w m)) (t_iv tk) mail1 (arr_pop (A m) ch)
+                      H4 (aw_kind_idle _ _ Hkind ltac:(discriminate)) Hmidc Hfreshc Hin1 Hla1 H13)
+            as (o & b & n & dr' & ml & Hrs & Hspec & Hwr).
+          { rewrite H3, Hc. exact Hrw. }
+          assert (Hm1 : mail_ok t m k (rcv_of tk0) (w_mail w) mail1 (A m) (arr_pop (A m) ch) [] []).
+          { rewrite H14. unfold mail_ok. split; [reflexivity|]. split; [|split; [|intros _; exact Hin1]].
+            - exists (fun c => if c =? ch then 1%nat else 0%nat). intros c. unfold arr_pop. destruct (c =? ch) eqn:E.
+              + replace c with ch by lia. rewrite Ec. cbn [skipn length]. split; [reflexivity|]. split; [destruct (A m ch); reflexivity|lia].
+              + rewrite (Eo m c) by (rewrite N.eqb_refl, E; reflexivity). cbn [skipn]. repeat split. lia.
+            - intros m' c Hne. apply Eo. replace (m' =? m) with false by lia. reflexivity. }
+          set (old := fun id => exists s0, In s0 (owned tk) /\ sid s0 = id).
+          assert (Hio : forall id, iv_ids (t_iv tk) id -> idsrc (w_nid w) (w_nid w) old id) by (intros id Hid; right; exact (Hivown id Hid)).
+          pose proof (poll_ok_pass t (w_nid w) (w_nid w) m k (rcv_of tk0) old (iv_ids (t_iv tk))
+                        (drop_entry (sid dl) (deadline dl) (drv_of w m)) (drop_entry (sid dl) (deadline dl) (drv_of w m))
+                        (w_mail w) mail1 (A m) (arr_pop (A m) ch) (exp_run t (iv_abs (t_iv tk)) (arr_pop (A m) ch) rest) [] []
+                        (exp_sends t (iv_abs (t_iv tk)) rest) (o, b, n, dr', ml)
+                        (N.le_refl _) Hio (acts_refl _ _) (fun x => eq_refl) Hm1 Hspec) as Hspec'.
+          cbn [app] in Hspec'.
+          exists (t_log tk ++ [t; 1]), (exp_run t (iv_abs (t_iv tk)) (arr_pop (A m) ch) rest),
+                 (exp_sends t (iv_abs (t_iv tk)) rest), (drop_entry (sid dl) (deadline dl) (drv_of w m)),
+                 old, o, b, n, dr', ml.
+          split; [rewrite H8, <- app_assoc; reflexivity|]. split; [exact H7|]. split; [exact H1|]. split; [exact H2|].
+          split; [exact Hrs|]. split; [exact Hspec'|].
+          split; [unfold fut_sends; rewrite Hc, H3; cbn [tl]; rewrite H14 in H4; rewrite !(exp_sends_rcv rest H4); reflexivity|].
+          split; [intros id H; exact H|].
+          split; [unfold wt; rewrite H3, Hc; cbn [length]; lia|].
+          split; [exact Ha|]. split; [exact Ge|split; [exact Gt|exact Gn]].
+        * (* no message: the delay has elapsed *)
+          apply mail_take_none in Emt.
+          assert (Hw : deadline dl = t).
+          { destruct Hcase' as [Hw|(ch' & Hw' & Hne & _)]; [exact Hw|]. injection Hw' as <-. contradiction. }
+          unfold chan_inst in EA. rewrite Emt in EA. cbn [map app] in EA.
+          assert (Hhit : aw_hit (deadline dl) (A m ch) = None).
+          { rewrite EA in *. apply isort_forall in F2. destruct (isort (fsends m ch (w_tasks w))) as [|a0 F']; [reflexivity|]. cbn [aw_hit].
+            inversion F2; subst. replace (a0 <? deadline dl) with false by lia. reflexivity. }
+          cbn [aw_rec aw_end aw_arr iv_after] in H8, H13. rewrite Hhit in H8, H13.
+          destruct (Hwd (or_introl Hw)) as (Ha & Hmidc & Hfreshc & Ge & Gt & Gn).
+          cbn [aw_done] in Ha, Hmidc, Hfreshc, Ge, Gt, Gn. replace (t <? deadline dl) with false in Ha, Hmidc, Hfreshc, Ge, Gt, Gn by lia.
+          pose proof (run_steps_woken_recv t m k st rest ch dl (t_iv tk) (drv_of w m) (w_nid w) (t_log tk) (w_mail w) Hdl) as Hrw.
+          replace (mail_take m ch (w_mail w)) with (@None (sleep * mailbox)) in Hrw by (symmetry; apply mail_take_none; exact Emt).
+          specialize (Hrw ltac:(lia)). rewrite Hw in H8, H13.
+          destruct (Hscratch (t_log tk ++ [t; 0]) rest (drv_of w m) (t_iv tk) (w_mail w) (A m)
+                      H4 (aw_kind_idle _ _ Hkind ltac:(discriminate)) Hmidc Hfreshc Hinert (fun _ => Hla) H13)
+            as (o & b & n & dr' & ml & Hrs & Hspec & Hwr).
+          { rewrite H3, Hc. exact Hrw. }
+          exists (t_log tk ++ [t; 0]), (exp_run t (iv_abs (t_iv tk)) (A m) rest), (exp_sends t (iv_abs (t_iv tk)) rest), (drv_of w m),
+                 (iv_ids (t_iv tk)), o, b, n, dr', ml.
+          split; [rewrite H8, <- app_assoc; reflexivity|]. split; [exact H7|]. split; [exact H1|]. split; [exact H2|].
+          split; [exact Hrs|]. split; [exact Hspec|].
+          split; [unfold fut_sends; rewrite Hc, H3; cbn [tl]; rewrite H14 in H4; rewrite !(exp_sends_rcv rest H4); reflexivity|].
+          split; [exact Hivown|].
+          split; [unfold wt; rewrite H3, Hc; cbn [length]; lia|].
+          split; [exact Ha|]. split; [exact Ge|split; [exact Gt|exact Gn]].
+      + (* an await on timers only *)
+        assert (Hwk : aw_wake a (t_iv tk) = t).
+        { destruct Hcase' as [Hw|(ch' & Hw' & _)]; [exact Hw|discriminate]. }
+        destruct (Hwd (or_introl Hwk)) as (Ha & Hmidc & Hfreshc & Ge & Gt & Gn).
+        destruct (aw_noarr a (t_iv tk) (A m) noarr Ew) as (En1 & En2 & En3 & _).
+        destruct (aw_reblock t a) as [a'|] eqn:Erb.
+        * (* blocked again at once *)
+          set (old := fun id => exists s, In s (owned tk) /\ sid s = id).
+          destruct (reblock_ok t (w_nid w) m k (rcv_of tk0) old (aw_done t a (drv_of w m)) (w_mail w) (A m) a a' (t_iv tk) rest st Hkind Hwk Erb H4 (mid_sorted _ _ Hmidc))
+            as (pre & s' & Ea' & Hspec & Hwr); [| |exact H13|].
+          { intros s Hs. exists s. split; [apply held_owned; rewrite Hheld; exact Hs|reflexivity]. }
+          { exact Hivown. }
+          destruct (run_steps_reblock t m k st rest a a' (t_iv tk) (drv_of w m) (w_nid w) (t_log tk) (w_mail w) Hkind Hh Hwk Erb) as (pre2 & s2 & Ea2 & Hrs).
+          rewrite Ea' in Ea2. injection Ea2 as <- <-.
+          exists (t_log tk), (aw_rec a (t_iv tk) (A m) ++ exp_run (aw_end a (t_iv tk) (A m)) (iv_abs (iv_after a (t_iv tk))) (aw_arr a (A m)) rest),
+                 (exp_sends (aw_end a (t_iv tk) (A m)) (iv_abs (iv_after a (t_iv tk))) rest),
+                 (aw_done t a (drv_of w m)), old, [], (Some (a', t_iv tk, st :: rest)), (w_nid w), (register (sid s') (deadline s') (aw_done t a (drv_of w m))), (w_mail w).
+          split; [exact H8|]. split; [exact H7|]. split; [exact H1|]. split; [exact H2|].
+          split; [rewrite H3, Hc, app_nil_r; exact Hrs|]. split; [exact Hspec|].
+          split; [unfold fut_sends; rewrite Hc, H3, En2; reflexivity|].
+          split; [intros id H; exact H|].
+          split; [unfold wt; rewrite H3, Hc; destruct a as [| | | | | | |[] ? ? ?|]; cbn [length] in *; lia|].
+          split; [exact Ha|]. split; [exact Ge|split; [exact Gt|exact Gn]].
+        * pose proof (aw_end_noreblock _ _ (A m) _ Hkind Ew Hwk Erb) as Eend. rewrite En3, Eend in H8, H13.
+          destruct (Hscratch (t_log tk ++ aw_rec a (t_iv tk) (A m)) rest (aw_done t a (drv_of w m)) (iv_after a (t_iv tk)) (w_mail w) (A m) H4
+                      (iv_after_idle _ _ Hkind) Hmidc Hfreshc Hinert (fun _ => Hla) H13) as (o & b & n & dr' & ml & Hrs & Hspec & Hwr).
+          { rewrite H3, Hc. apply run_steps_woken; assumption. }
+          exists (t_log tk ++ aw_rec a (t_iv tk) (A m)), (exp_run t (iv_abs (iv_after a (t_iv tk))) (A m) rest),
+                 (exp_sends t (iv_abs (iv_after a (t_iv tk))) rest), (aw_done t a (drv_of w m)),
+                 (iv_ids (iv_after a (t_iv tk))), o, b, n, dr', ml.
+          split; [rewrite H8, <- app_assoc; reflexivity|]. split; [exact H7|]. split; [exact H1|]. split; [exact H2|].
+          split; [exact Hrs|]. split; [exact Hspec|].
+          split; [unfold fut_sends; rewrite Hc, H3, <- En2, Eend; reflexivity|].
+          split; [intros id Hid; exact (Hivown id (iv_after_ids _ _ _ Hid))|].
+          split; [unfold wt; rewrite H3; cbn [length]; lia|].
+          split; [exact Ha|]. split; [exact Ge|split; [exact Gt|exact Gn]]. }
+  destruct Hgen as (L & E & S & drc & old & o & b & n & dr' & ml & Hexp & Hfin & Hm0 & Hs0 & Hrs & Hspec & HfS & Hold & Hwt & Hac & Ge & Gt & Gn).
+  destruct Hspec as (Hnn & Hacts & Hents & arr' & Hres).
   assert (Hmidc : Mid t drc) by exact (acts_mid _ _ _ Hac Hmid).
   destruct (poll_task_eq true t m k w tk _ _ _ _ _ _ _ _ Hk Hfin Hrs) as (Hsw & Hfes & Hnow & Hdr & Hoth & Htasks & Hnid & Hown & Hml).
-  assert (Hnn : w_nid w <= n) by exact (proj1 Hspec).
-  split; [exact Hsw|]. split; [|repeat split; try assumption].
-  - constructor.
-    + exact Hml.
-    + rewrite Htasks, Hown, Hnid. cbn [sent_by]. eapply ps_base; eassumption.
-    + inversion Hnd; assumption.
-    + intros k' Hin. rewrite Htasks. eapply ps_runnable; [exact Hnd|exact Hin|exact (Hrun k' (or_intror Hin))].
-    + rewrite Hdr. eapply ps_mid; eassumption.
-    + rewrite Htasks, Hdr. eapply ps_tie; eassumption.
-    + rewrite Hdr. eapply ps_live; eassumption.
-    + intros k' tk1 a1 Hin Hk1 Hc1. rewrite Hdr.
-      assert (Hnw' : next_wakeup dr' = next_wakeup drc) by (eapply ps_nw; eassumption).
-      rewrite Hnw'. destruct Hac as (ops & _ & Eq). rewrite Eq, (proj1 (apply_ops_rest_nw ops _)).
-      assert (Hne : k' <> k) by (intros ->; inversion Hnd; contradiction).
-      rewrite Htasks, (nth_set_nth_other _ _ _ _ (fun E => Hne (eq_sym E))) in Hk1.
-      exact (Hnwq k' tk1 a1 (or_intror Hin) Hk1 Hc1).
-  - intros k' Hne. rewrite Htasks. apply nth_set_nth_other. intros E1; apply Hne; symmetry; exact E1.
-  - rewrite Htasks. apply length_set_nth.
-  - rewrite Hnid. exact Hnn.
-  - intros tk1 H1. rewrite Htasks, (nth_set_nth_same _ _ _ _ Hk) in H1. injection H1 as <-.
-    eapply ps_spawned; eassumption.
-  - rewrite Htasks.
-    match goal with |- (work (set_nth k ?T _) + 1 <= _)%nat => set (tk' := T) end.
-    pose proof (work_set_nth (w_tasks w) k tk tk' Hk) as Hw.
-    assert (Hwt' : wt tk' = wres b).
-    { unfold wt, wres, tk'. cbn [t_steps t_cur t_fin].
-      destruct (proj2 (ps_cases _ _ _ _ _ _ _ _ _ Hspec)) as [(Eb & _)|(a & iv' & st & rest & Eb & _)]; rewrite Eb; reflexivity. }
-    lia.
+  set (tk' := {| t_mod := t_mod tk; t_start := t_start tk; t_steps := fr_steps b; t_cur := fr_cur b; t_iv := fr_iv b;
+                 t_log := L ++ o; t_fin := match fr_steps b with [] => true | _ => false end |}) in *.
+  set (A' := if rcv_of tk0 then upd A m arr' else A).
+  (* the facts about the state after the poll *)
+  set (before := flat_map snd (pending (drv_of w m))) in *.
+  set (own' := note_polls true k before (held_sleeps (fr_cur b) (fr_iv b) ++ sent_by k ml) (w_owner w)) in *.
+  set (ts' := set_nth k tk' (w_tasks w)) in *.
+  assert (Pbase : Base A0 A' ts0 ts' own' n) by (eapply ps_base; eassumption).
+  assert (Ptie : Tie ts' t r m dr') by (eapply ps_tie; eassumption).
+  assert (Parr : Arr A' t ts' ml) by (eapply ps_arr; eassumption).
+  assert (Pinert : inert ml) by (eapply ps_inert; eassumption).
+  assert (Pmail : mail_ok t m k (rcv_of tk0) (w_mail w) ml (A m) arr' S (fut_sends tk')) by (eapply ps_mail; eassumption).
+  assert (Pother : forall m' c, m' <> m -> chan m' c ml = chan m' c (w_mail w)) by (intros m' c; eapply ps_chan_other; eassumption).
+  assert (Pgrow : forall c, rcv_of tk0 = false -> exists extra, chan m c ml = chan m c (w_mail w) ++ extra /\ Forall (fun s => deadline s = t) extra)
+    by (intros c; eapply ps_chan_grow; eassumption).
+  assert (Pblock : forall ch, waits_on (t_cur tk') = Some ch -> rcv_of tk0 = true /\ chan m ch ml = []) by (intros ch; eapply ps_recv_block; eassumption).
+  assert (Pmid : Mid t dr') by (eapply ps_mid; eassumption).
+  assert (Pspawned : ~ unspawned tk') by (eapply ps_spawned; eassumption).
+  assert (Prun : forall k', In k' r -> runnable (w_tasks w) (w_mail w) t m k' -> runnable ts' ml t m k') by (intros k'; eapply ps_runnable; eassumption).
+  rewrite Htasks, Hml. fold ts'.
+  set (rr := ready_receivers m ml 0 ts').
+  pose proof (b_init _ _ _ _ _ _ Hbase) as Hinit. rewrite Forall_forall in Hinit.
+  assert (Hmod' : t_mod tk' = m) by exact Hmod.
+  assert (Hsame : nth_error ts' k = Some tk') by (unfold ts'; eapply nth_set_nth_same; exact Hk).
+  assert (Hoth' : forall x, x <> k -> nth_error ts' x = nth_error (w_tasks w) x).
+  { intros x Hne. unfold ts'. apply nth_set_nth_other. intros E1; apply Hne; symmetry; exact E1. }
+  (* a blocked receiver of the old state *)
+  assert (Hrecv : forall x tk1 ch, nth_error (w_tasks w) x = Some tk1 -> waits_on (t_cur tk1) = Some ch ->
+            exists tk10 dl, nth_error ts0 x = Some tk10 /\ t_cur tk1 = Some (AwTimeout (VRecv ch) dl) /\ rcv_of tk10 = true /\
+                            t_mod tk10 = t_mod tk1 /\ held tk1 = [dl]).
+  { intros x tk1 ch Hx Hw. destruct (Forall2_nth _ _ _ _ _ (b_states _ _ _ _ _ _ Hbase) Hx) as (tk10 & Hx0 & Hst1).
+    pose proof (Hinit tk10 (nth_error_In _ _ Hx0)) as Hi1.
+    destruct (t_cur tk1) as [a1|] eqn:Ec1; [|discriminate].
+    destruct (tstate_blocked _ _ _ _ _ Hst1 Hi1 Ec1) as (st1 & rest1 & G1 & _ & _ & _ & _ & Gk & _ & _ & Gh & _ & _ & _ & G14).
+    destruct (waits_recv a1 _ ch Gk Hw) as (dl & ->). exists tk10, dl. repeat split; try reflexivity; try assumption; [exact (G14 ch Hw)|symmetry; exact G1]. }
+  (* the receivers that join the queue: the poll has sent them a message *)
+  assert (Hnew : forall x, In x rr -> ~ In x r ->
+            x <> k /\ rcv_of tk0 = false /\
+            exists tk1 tk10 ch dl, nth_error (w_tasks w) x = Some tk1 /\ nth_error ts0 x = Some tk10 /\
+              t_cur tk1 = Some (AwTimeout (VRecv ch) dl) /\ t_mod tk1 = m /\ rcv_of tk10 = true /\ t_mod tk10 = m /\
+              chan m ch (w_mail w) = [] /\ chan m ch ml <> [] /\ t < deadline dl).
+  { intros x Hx Hnr. unfold rr in Hx. apply ready_receivers_in in Hx. destruct Hx as (tk1 & ch & _ & Hx & Hw & Hm1 & Hne).
+    rewrite Nat.sub_0_r in Hx.
+    assert (Hxk : x <> k).
+    { intros ->. rewrite Hsame in Hx. injection Hx as <-. destruct (Pblock ch Hw) as [_ Hnil]. contradiction. }
+    rewrite (Hoth' x Hxk) in Hx. destruct (Hrecv x tk1 ch Hx Hw) as (tk10 & dl & Hx0 & Hc1 & Hr1 & Hmm & Hh1).
+    assert (Hold0 : chan m ch (w_mail w) = []).
+    { destruct (chan m ch (w_mail w)) as [|s0 l0] eqn:Ec0; [reflexivity|exfalso].
+      destruct (Hrq x tk1 ch Hx Hw ltac:(rewrite Hm1, Ec0; discriminate)) as (_ & [->|Hin] & _); [exact (Hxk eq_refl)|exact (Hnr Hin)]. }
+    assert (Hr0 : rcv_of tk0 = false).
+    { destruct (rcv_of tk0) eqn:Er; [exfalso|reflexivity]. apply Hxk. apply (b_one _ _ _ _ _ _ Hbase x k tk10 tk0 Hx0 Hk0 Hr1 Er). rewrite Hmm, Hm1, Em. reflexivity. }
+    split; [exact Hxk|]. split; [exact Hr0|]. exists tk1, tk10, ch, dl. repeat split; try assumption; [rewrite Hmm; exact Hm1|].
+    assert (Hin : In (sid dl) (ents_at (deadline dl) (pending (drv_of w m)))).
+    { apply (tie_entry _ _ _ _ _ Htie x tk1 dl Hx); [rewrite Hh1; left; reflexivity|exact Hm1|left]. intros [E1|E1]; [exact (Hxk (eq_sym E1))|exact (Hnr E1)]. }
+    assert (Hne1 : ents_at (deadline dl) (pending (drv_of w m)) <> []) by (intros E1; rewrite E1 in Hin; contradiction).
+    exact (mid_future _ _ Hmid _ _ (ents_at_in _ _ Hne1) Hne1). }
+  split; [exact Hsw|]. split; [exists A'; constructor; rewrite ?Hml, ?Htasks, ?Hdr, ?Hown, ?Hnid; fold ts'; fold own'|].
+  - exact Pinert.
+  - exact Parr.
+  - exact Pbase.
+  - apply enqueue_nodup; [inversion Hnd; assumption|apply ready_receivers_nodup].
+  - intros x Hx. apply enqueue_in in Hx. destruct Hx as [Hx|[Hx Hnr]]; [exact (Prun x Hx (Hrun x (or_intror Hx)))|].
+    destruct (Hnew x Hx Hnr) as (Hxk & _ & tk1 & tk10 & ch & dl & G1 & _ & G3 & G4 & _ & _ & _ & G8 & G9).
+    exists tk1. split; [rewrite (Hoth' x Hxk); exact G1|]. split; [exact G4|]. right. exists (AwTimeout (VRecv ch) dl). split; [exact G3|].
+    right. exists ch. split; [reflexivity|]. split; [exact G8|exact G9].
+  - exact Pmid.
+  - apply (Tie_mono _ _ r); [|exact Ptie]. intros x Hx. apply enqueue_in. left; exact Hx.
+  - intros x tk1 ch Hx Hw Hne.
+    destruct (Nat.eq_dec x k) as [->|Hxk].
+    { rewrite Hsame in Hx. injection Hx as <-. rewrite Hmod' in Hne. destruct (Pblock ch Hw) as [_ Hnil]. contradiction. }
+    rewrite (Hoth' x Hxk) in Hx. destruct (Hrecv x tk1 ch Hx Hw) as (tk10 & dl & Hx0 & Hc1 & Hr1 & Hmm & Hh1).
+    destruct (N.eq_dec (t_mod tk1) m) as [Hm1|Hm1].
+    + rewrite Hm1 in Hne. split; [exact Hm1|]. split.
+      * apply enqueue_in. destruct (in_dec Nat.eq_dec x r) as [Hin|Hnin]; [left; exact Hin|right; split; [|exact Hnin]].
+        unfold rr. apply ready_receivers_in. exists tk1, ch. rewrite Nat.sub_0_r, (Hoth' x Hxk). repeat split; try assumption. lia.
+      * assert (Hr0 : rcv_of tk0 = false).
+        { destruct (rcv_of tk0) eqn:Er; [exfalso|reflexivity]. apply Hxk. apply (b_one _ _ _ _ _ _ Hbase x k tk10 tk0 Hx0 Hk0 Hr1 Er). rewrite Hmm, Hm1, Em. reflexivity. }
+        destruct (Pgrow ch Hr0) as (extra & -> & Hex). apply Forall_app. split; [|exact Hex].
+        destruct (chan m ch (w_mail w)) as [|s0 l0] eqn:Ec0; [constructor|].
+        destruct (Hrq x tk1 ch Hx Hw ltac:(rewrite Hm1, Ec0; discriminate)) as (_ & _ & Hall). rewrite Ec0 in Hall. exact Hall.
+    + exfalso. rewrite (Pother (t_mod tk1) ch Hm1) in Hne. exact (Hm1 (proj1 (Hrq x tk1 ch Hx Hw Hne))).
+  - repeat split; try assumption.
+    + unfold ts'. apply length_set_nth.
+    + rewrite Hnid. exact Hnn.
+    + intros tk1 H1. rewrite Hsame in H1. injection H1 as <-. exact Pspawned.
+    + pose proof (work_set_nth (w_tasks w) k tk tk' Hk) as Hw. fold ts' in Hw.
+      assert (Hwt' : wt tk' = wres b).
+      { unfold wt, wres, tk'. cbn [t_steps t_cur t_fin]. clear -Hres. unfold poll_body in Hres.
+        destruct b as [[[a iv'] l]|]; [|reflexivity]. destruct Hres as (st & rest & -> & _). reflexivity. }
+      lia.
+    + (* the queue grows at most by the messages that were sent *)
+      pose proof (psends_set_nth (w_tasks w) k tk tk' Hk) as Hps. fold ts' in Hps.
+      unfold enqueue. rewrite app_length.
+      match goal with |- context [length (filter ?f ?l)] => remember (filter f l) as new eqn:Enew end.
+      assert (Hnw : forall x, In x new -> In x rr /\ ~ In x r).
+      { intros x Hx. rewrite Enew in Hx. apply filter_In in Hx. destruct Hx as [H1 H2]. split; [exact H1|]. intros Hin. apply negb_true_iff in H2.
+        assert (existsb (Nat.eqb x) r = true) by (apply existsb_exists; exists x; split; [exact Hin|apply Nat.eqb_refl]). congruence. }
+      assert (Hlen1 : (length new <= 1)%nat).
+      { apply nodup_all_equal; [rewrite Enew; apply NoDup_filter, ready_receivers_nodup|]. intros x y Hx Hy.
+        destruct (Hnw x Hx) as [X1 X2]. destruct (Hnw y Hy) as [Y1 Y2].
+        destruct (Hnew x X1 X2) as (_ & _ & _ & tkx0 & _ & _ & _ & Gx0 & _ & _ & Gxr & Gxm & _).
+        destruct (Hnew y Y1 Y2) as (_ & _ & _ & tky0 & _ & _ & _ & Gy0 & _ & _ & Gyr & Gym & _).
+        apply (b_one _ _ _ _ _ _ Hbase x y tkx0 tky0 Gx0 Gy0 Gxr Gyr). congruence. }
+      rewrite HfS in Hps. unfold mail_ok in Pmail.
+      clear Enew. destruct new as [|x0 new0]; [cbn [length]|].
+      * destruct (rcv_of tk0).
+        -- destruct Pmail as (ES & _). rewrite ES in Hps. lia.
+        -- destruct Pmail as (toks & _ & _ & _ & ES). rewrite ES, app_length, map_length in Hps. lia.
+      * destruct (Hnw x0 ltac:(left; reflexivity)) as [X1 X2].
+        destruct (Hnew x0 X1 X2) as (_ & Hr0 & _ & _ & ch & _ & _ & _ & _ & _ & _ & _ & Gold & Gnew & _).
+        rewrite Hr0 in Pmail. destruct Pmail as (toks & Eml & _ & _ & ES). rewrite ES, app_length, map_length in Hps.
+        assert (toks <> []).
+        { intros ->. rewrite app_nil_r in Eml. rewrite Eml in Gnew. contradiction. }
+        destruct toks; [contradiction|]. cbn [length] in *. lia.
 Qed.
 
-(* the executor's run over the whole queue *)
-Lemma run_queue_frag ts0 t m : forall fuel q w, (length q <= fuel)%nat -> MInv ts0 t m q w ->
+
+(* the executor's run over the whole queue; receivers that are sent a message join it *)
+Lemma run_queue_frag A0 ts0 t m : forall fuel q A w, (length q + psends (w_tasks w) <= fuel)%nat -> MInv A0 A ts0 t m q w ->
   let w' := run_queue true fuel t m q w in
-  MInv ts0 t m [] w' /\ w_fes w' = w_fes w /\ w_now w' = w_now w /\
+  (exists A', MInv A0 A' ts0 t m [] w') /\ w_fes w' = w_fes w /\ w_now w' = w_now w /\
   (forall m', (m' =? 0) <> (m =? 0) -> drv_of w' m' = drv_of w m') /\
-  (forall k', ~ In k' q -> nth_error (w_tasks w') k' = nth_error (w_tasks w) k') /\
+  (forall k' tk1, nth_error (w_tasks w) k' = Some tk1 -> ~ In k' q -> (t_cur tk1 = None \/ t_mod tk1 <> m) ->
+     nth_error (w_tasks w') k' = Some tk1) /\
   length (w_tasks w') = length (w_tasks w) /\ w_nid w <= w_nid w' /\
+  (forall k' tk1 tk2, nth_error (w_tasks w) k' = Some tk1 -> nth_error (w_tasks w') k' = Some tk2 -> ~ unspawned tk1 -> ~ unspawned tk2) /\
   (forall k tk', In k q -> nth_error (w_tasks w') k = Some tk' -> ~ unspawned tk') /\
   (work (w_tasks w') + length q <= work (w_tasks w))%nat.
 Proof.
-  induction fuel as [|f IH]; intros q w Hlen Hm; cbn zeta.
+  induction fuel as [|f IH]; intros q A w Hlen Hm; cbn zeta.
   - destruct q; [|cbn [length] in Hlen; lia]. cbn [run_queue].
-    refine (conj Hm (conj eq_refl (conj eq_refl (conj (fun _ _ => eq_refl) (conj (fun _ _ => eq_refl) (conj eq_refl (conj _ (conj _ _)))))))); [lia|intros k tk' []|cbn [length]; lia].
+    split; [exists A; exact Hm|]. split; [reflexivity|]. split; [reflexivity|]. split; [reflexivity|].
+    split; [intros k' tk1 H _ _; exact H|]. split; [reflexivity|]. split; [lia|].
+    split; [intros k' tk1 tk2 H1 H2 Hn; rewrite H1 in H2; injection H2 as <-; exact Hn|]. split; [intros k tk' []|cbn [length]; lia].
   - destruct q as [|k r].
     { cbn [run_queue].
-      refine (conj Hm (conj eq_refl (conj eq_refl (conj (fun _ _ => eq_refl) (conj (fun _ _ => eq_refl) (conj eq_refl (conj _ (conj _ _)))))))); [lia|intros k tk' []|cbn [length]; lia]. }
+      split; [exists A; exact Hm|]. split; [reflexivity|]. split; [reflexivity|]. split; [reflexivity|].
+      split; [intros k' tk1 H _ _; exact H|]. split; [reflexivity|]. split; [lia|].
+      split; [intros k' tk1 tk2 H1 H2 Hn; rewrite H1 in H2; injection H2 as <-; exact Hn|]. split; [intros k tk' []|cbn [length]; lia]. }
     cbn [run_queue].
-    destruct (poll_task_minv ts0 t m k r w Hm) as (Hsw & Hm' & H1 & H2 & H3 & H4 & H5 & H6 & H7 & H8).
+    destruct (poll_task_minv A0 A ts0 t m k r w Hm) as (Hsw & (A1 & Hm') & H1 & H2 & H3 & H4 & H5 & H6 & H7 & H8 & H9).
     destruct (poll_task true t m k w) as [w1 sw]. cbn [fst snd] in *. subst sw.
-    rewrite (no_receivers ts0 (w_tasks w1) m (w_mail w1) (b_states _ _ _ _ (mi_base _ _ _ _ _ Hm')) (b_init _ _ _ _ (mi_base _ _ _ _ _ Hm'))).
-    unfold enqueue. cbn [filter]. rewrite app_nil_r.
-    cbn [length] in Hlen. destruct (IH r w1 ltac:(lia) Hm') as (G0 & G1 & G2 & G3 & G4 & G5 & G6 & G7 & G8).
+    set (q1 := enqueue r (ready_receivers m (w_mail w1) 0 (w_tasks w1))) in *.
+    cbn [length] in Hlen. destruct (IH q1 A1 w1 ltac:(lia) Hm') as (G0 & G1 & G2 & G3 & G4 & G5 & G6 & G7 & G8 & G9).
     split; [exact G0|]. split; [rewrite G1; exact H1|]. split; [rewrite G2; exact H2|].
     split; [intros m' Hne; rewrite (G3 m' Hne); exact (H3 m' Hne)|].
-    split; [|split; [rewrite G5; exact H5|split; [lia|split; [|cbn [length]; lia]]]].
-    + intros k' Hn. rewrite G4; [apply H4|]; intros E; apply Hn; [left; symmetry; exact E|right; exact E].
-    + intros k' tk' [<-|Hin] Hk'; [|exact (G7 k' tk' Hin Hk')].
-      assert (Hkr : ~ In k r) by (pose proof (mi_nodup _ _ _ _ _ Hm) as Hnd; inversion Hnd; assumption).
-      rewrite (G4 k Hkr) in Hk'. exact (H7 tk' Hk').
+    assert (Hkr : ~ In k r) by (pose proof (mi_nodup _ _ _ _ _ _ _ Hm) as Hnd; inversion Hnd; assumption).
+    split; [|split; [rewrite G5; exact H5|split; [lia|split; [|split]]]].
+    + intros k' tk1 Hk' Hn Hc. assert (Hne : k' <> k) by (intros ->; apply Hn; left; reflexivity).
+      apply G4; [rewrite (H4 k' Hne); exact Hk'| |exact Hc].
+      intros Hin. unfold q1 in Hin. apply enqueue_in in Hin. destruct Hin as [Hin|[Hin _]]; [apply Hn; right; exact Hin|].
+      apply ready_receivers_in in Hin. destruct Hin as (tk2 & ch & _ & Hx & Hw & Hmm & _). rewrite Nat.sub_0_r, (H4 k' Hne), Hk' in Hx. injection Hx as <-.
+      destruct Hc as [Hc|Hc]; [rewrite Hc in Hw; discriminate|exact (Hc Hmm)].
+    + intros k' tk1 tk2 Hk1 Hk2 Hns. destruct (nth_error (w_tasks w1) k') as [tkm|] eqn:Ekm.
+      * apply (G7 k' tkm tk2 Ekm Hk2). destruct (Nat.eq_dec k' k) as [->|Hne]; [exact (H7 tkm Ekm)|].
+        rewrite (H4 k' Hne), Hk1 in Ekm. injection Ekm as <-. exact Hns.
+      * exfalso. apply nth_error_None in Ekm. rewrite H5 in Ekm. apply nth_error_None in Ekm. congruence.
+    + intros k' tk' [<-|Hin] Hk'.
+      * destruct (nth_error (w_tasks w1) k) as [tkm|] eqn:Ekm.
+        -- exact (G7 k tkm tk' Ekm Hk' (H7 tkm eq_refl)).
+        -- exfalso. apply nth_error_None in Ekm. assert (Hk2 : nth_error (w_tasks (run_queue true f t m q1 w1)) k <> None) by (rewrite Hk'; discriminate).
+           apply nth_error_Some in Hk2. rewrite G5 in Hk2. lia.
+      * apply (G8 k' tk'); [unfold q1; apply enqueue_in; left; exact Hin|exact Hk'].
+    + assert (length r <= length q1)%nat by (unfold q1, enqueue; rewrite app_length; lia). cbn [length]. lia.
+Qed.
+
+(* the messages still to be sent are bounded by the steps still to go *)
+Lemma exp_sends_len steps : forall now iv, (length (exp_sends now iv steps) <= length steps)%nat.
+Proof.
+  induction steps as [|st r IH]; intros now iv; cbn [exp_sends length]; [lia|]. rewrite app_length.
+  specialize (IH (step_time now iv noarr st) (step_iv now iv st)). destruct st; cbn [length]; lia.
+Qed.
+
+Lemma psends_bound ts : (psends ts <= fold_right (fun tk n => (length (t_steps tk) + n)%nat) 0%nat ts)%nat.
+Proof.
+  induction ts as [|tk r IH]; cbn [psends fold_right]; [lia|]. fold (psends r).
+  assert (length (fut_sends tk) <= length (t_steps tk))%nat.
+  { unfold fut_sends. destruct (t_cur tk).
+    - pose proof (exp_sends_len (tl (t_steps tk)) (aw_end a (t_iv tk) noarr) (iv_abs (iv_after a (t_iv tk)))). destruct (t_steps tk); cbn [tl length] in *; lia.
+    - destruct (t_fin tk); [cbn [length]; lia|apply exp_sends_len]. }
+  lia.
 Qed.
